@@ -12,1315 +12,2862 @@ Definition show_fres (r : fres) : string :=
   end.
 Definition check (rs : list rune) : string := digest (show_fres (format_res rs)).
 Definition full (rs : list rune) : string := show_fres (format_res rs).
-Eval vm_compute in ("<<<M1428>>>" ++ check (runes_of_ascii "options { // c1a
-  // c1b
-LittleEndian
-    // c2
-=
-    // c3
-true
-    // c4
-; // c5a
-  // c5b
-StringPrefixLenType = // c7a
-  // c7b
-u32 ; FixedStringPadChar // c10
-=
-    // c11
-'0' ; // c13a
-  // c13b
-} // c14
-packet // c15a
-  // c15b
-Logout { repeat // c18
-InMsgkind49 // c19a
-  // c19b
-{ u8 pad0 , // c23
-} // c24
-,
+Eval vm_compute in ("<<<M4205>>>" ++ check (runes_of_ascii "// top
+options {
+    // c1
+    LittleEndian = true;// c5
+    StringPrefixLenType = u8;
+    // c9
+    ArrayPrefixLenType = u16;
+    FixedStringPadChar = '0';
+    // c17
+    JavaPackage = ""com.example.msg"";// c21
+    GoPackage = ""msg"";
     // c25
-repeat // c26
-char[ // c27
-5 ] seqNo // c30
-, // c31a
-  // c31b
-repeat u8 // c33a
-  // c33b
-price // c34
-, // c35
-}
-    // c36
-packet // c37
-Party { // c39a
-  // c39b
-zchar[ // c40a
-  // c40b
-7 // c41a
-  // c41b
-] Qty // c43a
-  // c43b
-, // c44a
-  // c44b
-} // c45a
-  // c45b
-packet // c46
-Logon
-    // c47
-{ repeat // c49
-InRef10
-    // c50
-{ string
-    // c52
-price // c53a
-  // c53b
-, // c54
-char[]
-    // c55
-sym , // c57
-repeat
-    // c58
-Logout // c59a
-  // c59b
-,
-    // c60
-} // c61
-,
-    // c62
-repeat char[ // c64
-3 // c65a
-  // c65b
-] count
-    // c67
-, repeat // c69a
-  // c69b
-Party ,
-    // c71
-char[] // c72a
-  // c72b
-tag7
-    // c73
-, // c74a
-  // c74b
-@rightPad ( // c76a
-  // c76b
-'0' // c77a
-  // c77b
-) // c78a
-  // c78b
-char[ // c79
-2 // c80
-] // c81
-clOrdID // c82
-, // c83a
-  // c83b
-} // c84
-packet // c85a
-  // c85b
-Order
-    // c86
-{
-    // c87
-InTail13
-    // c88
-{
-    // c89
-Party , } ,
-    // c93
-repeat char[ // c95a
-  // c95b
-4 ] count , // c99a
-  // c99b
-}
-    // c100
-root // c101
-packet // c102a
-  // c102b
-Cancel // c103
-{
-    // c104
-Logout
-    // c105
-, @leftPad
-    // c107
-( // c108a
-  // c108b
-'0' ) char[ // c111a
-  // c111b
-9 // c112
-] // c113a
-  // c113b
-msgKind , // c115
-string // c116a
-  // c116b
-lastPx
-    // c117
-, // c118
-string // c119
-tag7
-    // c120
-, // c121
-zchar[
-    // c122
-1
-    // c123
-] // c124a
-  // c124b
-OrderId , // c126
-repeat Party , // c129
-u16 // c130a
-  // c130b
-sym // c131
-,
-    // c132
-u16 Acct // c134a
-  // c134b
-@lengthOf( Body // c136
-)
-    // c137
-, match // c139
-sym as
-    // c141
-Body { [ 24 // c145a
-  // c145b
-, // c146a
-  // c146b
-44
-    // c147
-]
-    // c148
-: Logout
-    // c150
-, // c151
-160 // c152a
-  // c152b
-: Order // c154a
-  // c154b
-, // c155
-91 // c156a
-  // c156b
-: Logon // c158a
-  // c158b
-, // c159
-43 // c160a
-  // c160b
-: // c161
-Party // c162
-, } // c164a
-  // c164b
-,
-    // c165
-u16 // c166
-Tail // c167a
-  // c167b
-@calculatedFrom( // c168a
-  // c168b
-""CRC32"" // c169a
-  // c169b
-) , // c171a
-  // c171b
-} // c172a
-  // c172b
-")).
-Eval vm_compute in ("<<<M1843>>>" ++ check (runes_of_ascii "
-// @lengthOf(
-	root	packet 
-leftPad
-	{
-
-match  Logon as	msg_type
-
-{ ""it's""	:
-
-int
-, """ ++ [128512]%N ++ runes_of_ascii """
-: charz
-
-""a\\""
-	:
-    options1	,
-
+    GoModule = ""example.com/msg"";
 }
 
-,	@rightPad
-(  ' ' 
-)
-
-    asx
-
-    `doc`
-	,  @leftPad 
-(
-
-'0' ) 
-uint32
-charz 
-,	@tag(
-255
-)
-zchar[	10
-	]
-	Pad
-
-``,	string	asx  `it's`
-
-, } packet 
-    // packet A { u8 x, }
-// trailing space 
-    Pad 
-{
-    @lengthOf(lengthOf)	@lengthOf(
-	crc  )u8x `a\`
-,	float64	f32a
-	@calculatedFrom(
-
-""a\""b"" ) `it's`
-	,
-
-    @lengthOf(options1
-    )	@tag(
-
-42
-)
-@calculatedFrom( 
-// a // b
-
-	//x
-  ""1""
-)
-	zchar[
-
-7
-] repeatCount
-	`say ""hi""` , @calculatedFrom(
-    ""// no comment"" )
-
-//x
-    zchar[
-
-    3	]
-	i8i8
-@calculatedFrom(
-
-""// no comment""
-)`" ++ [233]%N ++ runes_of_ascii "`	,
-@tag(//
-  65535	) 
-match	o
-	as float{[// @lengthOf(
-10]
-:
-len
-	}
-, @tag(
-
-3 //x
-    	)match
-
-repeatCount
-as Pad
-
-{
-    [""// no comment"",
-42, ""\n""
-
-,	007 ,	3 , ""// no comment""
-// c
-    ] 
-:
-	calculatedFrom  }
-    ,u8x{
-
-    repeat 
-string
-    x `it's`
-
-    ,
-x
-@calculatedFrom( """ ++ [128512]%N ++ runes_of_ascii """
-) //
-	,  falsey
-	{match f32a
-as// c
-
-  u128  {
-    [	""it's""
-    //x
-  , 0123456789,
-0 
-,
-""" ++ [233]%N ++ runes_of_ascii "t" ++ [233]%N ++ runes_of_ascii """
-, 42 , 65535  // c
-, 
-1  ,
-255
-] :uint8x
-    ,
-0
-    :
-
-asx 
-, } ,  repeat
-
-    packetx
-
-u
-`{ , }`,
-    string Foo
-,x 
-@calculatedFrom( ""a	b""
-
-)  //	t
-      , } , o
-pack
-	,	}
-
-,  // a // b
-	  }
-packet	i64_ {
-	repeat	char[
-3 
-]
-    a1
-	, }options
-// a // b
-
-{ }
-")).
-Eval vm_compute in ("<<<M207>>>" ++ check (runes_of_ascii "
-root packet	msg_type {u128//
-, @calculatedFrom(
-""" ++ [233]%N ++ runes_of_ascii "t" ++ [233]%N ++ runes_of_ascii """ ) repeat char[
-    //
-    3]
-    metadata`crlf
-line`,
-char[255 ]	Pad
-,  asx @calculatedFrom(""packet"" )
-    , repeat stringy `tab	here`
-    ,
-//x
-//	t
-repeat //x
-As `two words`, @leftPad ( '\x00'
-    ) repeat matchKey`a\`	, @rightPad (' ' ) repeat/// triple
-Pad
-{ repeat
-    u
-,
-// trailing space 
-// packet A { u8 x, }
-repeat char[] uint8x , }
-    ,
-u128	{ repeat
-As `u8 x,` ,
-pack msg_type,	uint32 lengthOf @calculatedFrom( ""1""	), match roots as
-    // " ++ [128512]%N ++ runes_of_ascii " emoji
-    x{ ""{,}"" :
-    // " ++ [27880; 37322]%N ++ runes_of_ascii "
-    Pad
-    }
-    ,  } ,}
-root packet tag
-{string pack , } root
-packet u8x
-    {
-string
-    pack `doc` , @lengthOf( options1
-    )f32	matchKey @calculatedFrom( ""`tick`"" )
-`two words` , @leftPad (  '\x00' )@lengthOf( Packet) @tag( 007//x
-)
-int32
-    Pad	@calculatedFrom(""a\\""
-)
-, @calculatedFrom( """" ) string a1 @lengthOf( metadata ) ,match u128 as Foo {
-    [ ""`tick`"" ]
-: msg_type
-    ,
-    10 // a // b
-:
-msg_type, 00
-:  len, ""`tick`"" : _x ,1 : repeatCount
-    , [ 1 , //	t
-1 ] :
-    // packet A { u8 x, }
-    pack ,} , @leftPad ( )
-float64 pack
-    `
-` ,
-    }")).
-Eval vm_compute in ("<<<M1449>>>" ++ check (runes_of_ascii "options {
-    StringPrefixLenType = u32;
-    ArrayPrefixLenType = u8;
-    FixedStringPadFromLeft = false;
+// c30
+MetaData Meta {
+    u32 SeqNum `sequence number`,// c37a
+    // c37b
+    char[8] Symbol `symbol`,// c43
+    zchar[5] ZSym `z symbol`,
+    // c49
+    string Note,// c52
+    Symbol AltSymbol `alias of symbol`,
+    f64 Price,// c59
 }
+
+packet Inner {
+    // c63
+    u8 a,// c66a
+    // c66b
+    i16 b,// c69a
+    // c69b
+    string c,// c72
+}// c73
+
+packet Inner2 {
+    // c76a
+    // c76b
+    u8 a2,// c79a
+    // c79b
+    char[3] c2,// c84a
+    // c84b
+}
+
 packet Logon {
-    i8 venue,
-    int16 f1,
-    zchar[8] Acct,
-    repeat InNote16 {
-        InQty73 {
-            float32 tag7,
-        },
-        f32 Acct,
-        zchar[5] sym,
-    },
-    uint16 Side2,
-    i32 lastPx,
-}
-packet Fill {
-    repeat InOrderid15 {
-        zchar[8] sym,
-        repeat char[2] OrderId,
-        repeat Logon,
-        InQty82 {
-            char[] Tail,
-            repeat Logon,
-            float64 price,
-            f64 Side2,
-        },
-        char[12] venue,
-        char[4] Px,
-    },
-    @rightPad('0') char[2] venue,
-    InPrice99 {
-        InAcct72 {
-            u8 pad0,
-        },
-        u32 OrderId,
-        Logon,
-    },
-}
-root packet Reject {
-    zchar[9] msgKind,
-    u32 venue,
-    u16 seqNo @lengthOf(Body),
-    match venue as Body {
-        57 : Fill,
-        8 : Logon,
-    },
-    u16 Tail @calculatedFrom(""CRC32""),
-}
-")).
-Eval vm_compute in ("<<<M1939>>>" ++ check (runes_of_ascii "
-options
-{
-    string_
-        //x
-		=char[ 7  ]; 
+    // c88
+    u8 x,// c91
+    string user,
+    repeat u16 codes,
+}// c99a
+
+// c99b
+packet Logout {
+    // c102
+    u16 reason,
+    // c105
 }
 
-    options
+// c106
+packet Empty {
+}// c110a
 
-    { crc = float64;
-Logon
-= 
-false  // a // b
-
-As =
-
-'0'	f32a
-= 
-char[]
-	;	// packet A { u8 x, }
-  T = 00
-	} root
-	packet
-	x  {
-
-    @calculatedFrom(
-    ""1"" ) repeat
-
-    zchar[
-    255 ] 	 // " ++ [128512]%N ++ runes_of_ascii " emoji
-	  string_	,
-	} root packet 
-int{
-    @tag(
-
-4294967296
-
-    ) 
-char[ 255  // packet A { u8 x, }
-    ]  a1
-	,  repeat x `` , 
-char[]
-
-    packetx
-
-@lengthOf(
-
-    uint8x	)
-    `u8 x,` ,zchar[ 10
-]
-leftPad
-
-@calculatedFrom(
-""a	b"" )	,
-    lengthOf
-@calculatedFrom(  """"
-)
-    ,
-@calculatedFrom(
-	    /// triple
-    ""packet"")	i32
-
-    matchKey ,
-@rightPad
-
-() 
-zchar[  1
-	]	A
-	,
-
-    u32
-    Packet
-
-    @calculatedFrom( ""{,}"")
-`a\`
-
-, // c
-
-  repeat
-
-char[
-00]  Header  `say ""hi""`
-	//x
-  	,
-
-stringy
-trueish
-    `// not a comment` 
-, }")).
-Eval vm_compute in ("<<<M1948>>>" ++ check (runes_of_ascii "root packet lengthOf {
-    repeat char[] asx `// not a comment`,
-    lengthOf {
-        string options1,
-        char[] A @calculatedFrom(""\n""),
-        int16 trueish,
+// c110b
+root packet Msg {
+    // c114a
+    // c114b
+    u8 su8,
+    // c117
+    uint8 luint8,
+    u16 su16,
+    uint16 luint16,// c126a
+    // c126b
+    u32 su32,
+    // c129
+    uint32 luint32,// c132
+    u64 su64,// c135
+    uint64 luint64,// c138a
+    // c138b
+    i8 si8,
+    int8 lint8,
+    // c144
+    i16 si16,
+    int16 lint16,
+    i32 si32,
+    int32 lint32,// c156a
+    // c156b
+    i64 si64,
+    // c159
+    int64 lint64,
+    // c162
+    f32 sf32,
+    // c165
+    float32 lfloat32,
+    f64 sf64,// c171a
+    // c171b
+    float64 lfloat64,
+    char[6] fsplain,// c179a
+    // c179b
+    @leftPad('0')
+    char[4] fs0,// c188a
+    // c188b
+    @rightPad('0')
+    char[5] fs1,
+    @leftPad(' ')
+    // c201
+    char[6] fs2,// c206a
+    // c206b
+    @rightPad(' ')
+    // c210a
+    // c210b
+    char[7] fs3,
+    @leftPad('\x00')
+    char[8] fs4,// c224
+    @rightPad('\x00')
+    // c228
+    char[9] fs5,// c233
+    @leftPad()
+    // c236a
+    // c236b
+    char[10] fs6,
+    // c241
+    @rightPad()
+    // c244
+    char[11] fs7,// c249a
+    // c249b
+    zchar[7] fz,
+    @leftPad('0')
+    // c258a
+    // c258b
+    zchar[3] fzl0,
+    // c263
+    string s1 `doc`,// c267
+    char[] s2,
+    // c270
+    Inner,// c272a
+    // c272b
+    Sub {
+        // c274
+        u8 q,
+        string w,// c280
+        Deep {
+            // c282
+            u16 z,
+            // c285
+            repeat i32 zs,
+            // c289
+        },// c291a
+        // c291b
+    },// c293a
+    // c293b
+    repeat u8 ru8,// c297
+    repeat u16 ru16,
+    repeat u32 ru32,// c305
+    repeat u64 ru64,
+    repeat i8 ri8,
+    // c313
+    repeat i16 ri16,
+    // c317
+    repeat i32 ri32,
+    // c321
+    repeat i64 ri64,// c325
+    repeat f32 rf32,// c329a
+    // c329b
+    repeat f64 rf64,// c333
+    repeat string rstr,// c337
+    repeat char[] rstr2,
+    repeat char[3] rfs,
+    repeat zchar[3] rfz,
+    // c353
+    repeat Inner2,
+    repeat Grp {
+        u8 k,// c362a
+        // c362b
+        char[2] v,// c367
+    },// c369
+    SeqNum,// c371
+    SeqNum seq2,
+    repeat SeqNum seqs,
+    Symbol,// c380
+    AltSymbol alt,// c383a
+    // c383b
+    ZSym,
+    Note,
+    // c387
+    repeat Symbol syms,
+    Price px,// c394a
+    // c394b
+    u16 MsgType,// c397
+    u32 BodyLen @lengthOf(Body),
+    // c403
+    match MsgType as Body {
+        // c408
+        1 : Logon,
+        // c412
+        [2, 3] : Logout,
+        // c420
+        7 : Logon,
+        9 : Empty,
+        // c428a
+        // c428b
+    },// c430a
+    // c430b
+    u32 Checksum @calculatedFrom(""CRC32""),
+    // c436
+}")).
+Eval vm_compute in ("<<<M3830>>>" ++ check (runes_of_ascii "// @lengthOf(
+packet charz {
+    BodyLength @lengthOf(o),
+    @calculatedFrom(""a\\"")
+    match i64_ as a1 {
+        // a // b
+        [7, 4294967296] : Header,
+        [
+            0, 4294967296, 10, 007, 007,
+            1, ""1"", ""`tick`""
+        ] : Packet,
+        3 : MetaDataX,
+        3 : T,
     },
-    repeat int16 stringy,
-    string Logon `{ , }`,
-    @lengthOf(metadata)
-    match trueish as Foo {
-        00 : T,
-        7 : Z9_,
+    @calculatedFrom("""")
+    @calculatedFrom(""CRC32"")
+    int16 lengthOf @calculatedFrom(""x y""),
+    float64 stringy @calculatedFrom(""// no comment"") `line1
+        line2`,
+    falsey repeatCount `
+        `,
+    //	t
+    repeat float64 trueish,/// triple
+    _x @lengthOf(stringy) `tab	here`,
+    @lengthOf(matchKey)
+    @leftPad('0')
+    @calculatedFrom(""it's"")
+    u8 metadata,
+    uint8 chars,
+}
+
+packet MetaDataX {
+    // packet A { u8 x, }
+    @tag(65535)
+    repeat string_ a1 `{ , }`,
+    @leftPad()
+    @calculatedFrom(""\n"")
+    @leftPad()
+    match T as packetx {
+        ""1"" : options1,
     },
-    string_ a1 `" ++ [28040; 24687; 31867; 22411]%N ++ runes_of_ascii "`,
+    uint8 MetaDataX @lengthOf(roots),
+    @tag(0123456789)
+    body @calculatedFrom(""packet"") `u8 x,`,
+    /// triple
 }
 
 packet zchar {
-    @calculatedFrom(""x y"")
-    repeatCount `
-    `,
-    match stringy as u {
-        255 : charz,
+    match len as calculatedFrom {
+        4294967296 : charz,
+        [4294967296, ""\" ++ [233]%N ++ runes_of_ascii """, 10, 1] : pack,
+        [0, 42] : matchKey,
+        ""{,}"" : i64_,
     },
-    zchar[0123456789] Z9_ @lengthOf(crc) `it's`,
+    @tag(42)
+    uint64 trueish @calculatedFrom(""`tick`""),
+    @calculatedFrom(""" ++ [28040; 24687]%N ++ runes_of_ascii """)
+    @rightPad('0')
+    u8 Foo `line1
+        line2`,
+    match charz as packetx {
+        4294967296 : float,
+        [007, ""a\""b""] : u8x,
+        42 : options1,
+    },// 50% %s
+    stringy len,
+}
+
+packet f32a {
+    Packet @lengthOf(u),
+    @tag(3)
+    body uint8x,
+    @lengthOf(metadata)
+    char[4294967296] zchar,
+    // packet A { u8 x, }
+    @tag(007)
+    @tag(10)
+    @tag(4294967296)
+    i32 asx,
+    int16 x @calculatedFrom(""CRC32""),
+}
+
+packet u128 {
+    @calculatedFrom(""a\\"")
+    @tag(1)
+    @lengthOf(x)
+    int64 BodyLength @lengthOf(charz),
+    @rightPad('\x00')
+    float Pad,
     @leftPad('\x00')
-    zchar[0] rootA @calculatedFrom(""CRC32""),
-    @lengthOf(leftPad)
-    // packet A { u8 x, }
-    Foo @calculatedFrom(""{,}""),
-    uint32 Foo `// not a comment`,
-    f32 float,
-    repeat matchKey,
-    Logon @lengthOf(rootA) `" ++ [28040; 24687; 31867; 22411]%N ++ runes_of_ascii "`,
+    repeat i64 _x,
 }")).
-Eval vm_compute in ("<<<M280>>>" ++ check (runes_of_ascii "options{
-    metadata
-= '0' int = 007 ; zchar
-// " ++ [27880; 37322]%N ++ runes_of_ascii "
-// `tick` ""quote"" 'q'
-=
-'\x00' ;
-    }
-    packet charz {
-@leftPad
-    ( '0'
-    ) @tag(
-42
-    // " ++ [128512]%N ++ runes_of_ascii " emoji
-    ) @calculatedFrom(
-    // " ++ [27880; 37322]%N ++ runes_of_ascii "
-    ""a\""b"" )char[]
-    packetx
-    @calculatedFrom(""\" ++ [233]%N ++ runes_of_ascii """
-    )`
-`
-,	match charz as msg_type  {
-//
-// trailing space 
-4294967296:
-o 0123456789: // packet A { u8 x, }
-trueish ,  ""// no comment"" : asx //x
-[ 65535 ,
-65535 ,
-    3,""a\""b""
-,	""a\\""	,""" ++ [28040; 24687]%N ++ runes_of_ascii """
-, 0123456789 ,
-    ""a	b"" ]
-: T
-,
-}
-, @rightPad (
-' '
-    )
-crc , repeat char[]
-    // packet A { u8 x, }
-    stringy  `a\` , }
-// " ++ [128512]%N ++ runes_of_ascii " emoji
-// " ++ [128512]%N ++ runes_of_ascii " emoji
-MetaData// c
-tag { uint64 metadata ,int64 trueish `{ , }`,
-uint32 a1 , f32 Packet `// not a comment` , }
-")).
-Eval vm_compute in ("<<<M1651>>>" ++ check (runes_of_ascii "// top
-packet A {
-    // c2a
-    // c2b
-    u8 a,// c5
-}
-
-// c6
-packet B {
-    u16 b,
-}
-
-// c13
-packet C {
-    // c16
-    u32 c,// c19
-}// c20a
-
-// c20b
-root packet M {
-    // c24
-    u16 Kc,// c27a
-    // c27b
-    u16 Kb,
-    // c30
-    u16 Ka,// c33a
-    // c33b
-    match Kc as X {
-        9 : A,
-        // c42
-        10 : B,
-        // c46a
-        // c46b
-    },
-    match Kb as Y {
-        // c53
-        2 : C,
-        // c57
-        1 : A,
-        // c61
-    },
-    // c63
-    match Ka as Z {
-        1 : B,
-        // c72
-    },// c74a
-    // c74b
-    A,// c76
-    B,// c78
-    C,
-}
-// c81")).
-Eval vm_compute in ("<<<M1413>>>" ++ check (runes_of_ascii "// top
-root // c0
-packet Frame
-    // c2
-{ // c3a
-  // c3b
-u8
-    // c4
-K // c5
-, // c6a
-  // c6b
-Logon // c7
-first
-    // c8
-,
-    // c9
-match // c10a
-  // c10b
-K as
-    // c12
-Body { // c14
-1 : Logon
-    // c17
-, // c18
-2 : Logout ,
-    // c22
-} , // c24
-} packet // c26
-Logon // c27a
-  // c27b
-{ // c28a
-  // c28b
-string // c29a
-  // c29b
-user
-    // c30
-, // c31a
-  // c31b
-} // c32a
-  // c32b
-packet // c33
-Logout
-    // c34
-{ // c35a
-  // c35b
-u16 // c36a
-  // c36b
-reason ,
-    // c38
-}
-    // c39
-")).
-Eval vm_compute in ("<<<M172>>>" ++ check (runes_of_ascii "// c
-options  {
-i8i8
-    = """ ++ [28040; 24687]%N ++ runes_of_ascii """
-    // trailing space 
-    ; Pad= ' ' }root packet i8i8{ i64 matchKey`" ++ [233]%N ++ runes_of_ascii "`
-,match repeatCount as x// @lengthOf(
+Eval vm_compute in ("<<<M1156>>>" ++ check (runes_of_ascii "
+root /// triple
+packet trueish
+{@tag(	00
+)
+repeat char[]_x
+    , repeat float32 Packet`
+` , @calculatedFrom(
+    """ ++ [233]%N ++ runes_of_ascii "t" ++ [233]%N ++ runes_of_ascii """
+    ) matchKey a1 ,	u128,
+    @calculatedFrom( ""x y"" )
+a1 { roots /// triple
 {
-//	t
-// a // b
-42 : float
-    ,
-007 : u , }
+match packetx as a1 { [
+0123456789 , 0123456789 ] // packet A { u8 x, }
+:
+    tag ,""\n"" : uint8x,
+    00
+    :	Z9_ //
+, ""\" ++ [233]%N ++ runes_of_ascii """:i64_ // trailing space 
+[ ""// no comment"" ,
 // trailing space 
 //x
+""`tick`"" ] : asx ,
+}, // `tick` ""quote"" 'q'
+} ,
+    } ,@lengthOf( trueish ) //
+repeat
+uint8 Foo`
+`	,@calculatedFrom(
+""{,}"" ) i8i8
+f32a ,repeat MetaDataX o
+`// not a comment` ,}
+    options  { } packet	matchKey { @tag( 42  ) @lengthOf(
+    //	t
+    metadata) options1 `tab	here`, int64 trueish
+    @lengthOf( // trailing space 
+asx
+    // packet A { u8 x, }
+    ) `a\`
 ,
-@calculatedFrom( ""a	b"" ) string_
-// @lengthOf(
+@lengthOf( chars ) f32
+    // " ++ [128512]%N ++ runes_of_ascii " emoji
+    u8x @calculatedFrom(
 /// triple
-{  matchKey string_
-    ,// trailing space 
-} , repeat char[] repeatCount
-    , }
-options // a // b
-{
-msg_type =
-true ; int
-// " ++ [128512]%N ++ runes_of_ascii " emoji
+// @lengthOf(
+""// no comment"" ), }packet f32a { zchar[// `tick` ""quote"" 'q'
+42 ]Pad @lengthOf(
+repeatCount ) , @leftPad (  '\x00' )
+uint64 string_// c
+`a\` , @calculatedFrom( ""CRC32"" )char MetaDataX // 50% %s
+, repeat zchar[ //
+00//
+] body ,repeat
+    trueish{
+matchKey MetaDataX `u8 x,` , repeat u32 // `tick` ""quote"" 'q'
+u8x `it's` , },
+    char[ // c
+255]
+    // c
+    u128,  BodyLength @lengthOf(
+    asx )`it's`	, // a // b
+string MetaDataX@calculatedFrom( /// triple
+""packet"" ) ,// packet A { u8 x, }
+match lengthOf as metadata {""{,}"" :
+// packet A { u8 x, }
 // " ++ [27880; 37322]%N ++ runes_of_ascii "
-= u16	string_
-    = false ;}")).
-Eval vm_compute in ("<<<M361>>>" ++ check (runes_of_ascii "// c
-packet float// `tick` ""quote"" 'q'
-{ match tag
-as	x // " ++ [128512]%N ++ runes_of_ascii " emoji
+MetaDataX ,
+    }, @rightPad
+(	'\x00' )
+i16 A	, } packet _x
 {
-""\n"" :
-    // a // b
-    A ,
-} , @lengthOf(
-    o ) A  , char[ 4294967296 ] o @lengthOf( // packet A { u8 x, }
-a1 ) , }	packet x {
-    char[
-3 ] BodyLength
-, }
-packet Header { @lengthOf( stringy )
-@tag(42	)@calculatedFrom(""1"" ) zchar[ 0123456789 ] As
-@lengthOf(
-    // a // b
-    packetx ) `// not a comment` , } //	t")).
-Eval vm_compute in ("<<<M1689>>>" ++ check (runes_of_ascii "
-packet stringy { 
-falsey
-    @lengthOf(
-MetaDataX
-) `crlf
-line` , match
+    // packet A { u8 x, }
+    @lengthOf( _x )
+@lengthOf(// packet A { u8 x, }
+u128) @rightPad( '\x00'
+)zchar[ 4294967296 ]charz,}")).
+Eval vm_compute in ("<<<M4053>>>" ++ check (runes_of_ascii "
+MetaData
+u
 
-tag
-as
-    uint8x
-    {
-""a\""b"" 
-:
-
-charz
-
-    ,
-00 :	repeatCount
-
-    , 10
-
-    :	Header
-	""a	b"" 
-	/// triple
-  :
-Pad
-    ,
-	65535
-:  metadata 
-,	}	,@calculatedFrom(
-""a\""b""
-    )
-    //x
-	char[	255 ]
-falsey ,x_y_z@calculatedFrom(
-""packet"" )
-    `tab	here` ,
+    {/// triple
+  }MetaData  repeatCount
+	{
 	}
+    root packet	asx {	// trailing space 
+@calculatedFrom(
+""" ++ [28040; 24687]%N ++ runes_of_ascii """
+) body	f32a
+,  uint16
+stringy	,  /// triple
 
-")).
-Eval vm_compute in ("<<<M360>>>" ++ check (runes_of_ascii "
-packet zchar{
-stringy//
-@lengthOf(
-    MetaDataX )
-    `it's` ,
-    @tag(
+calculatedFrom
+	{	match metadata	as rootA
+    {""{,}"": 
+roots,
+""x y"" :
+i8i8
+    ""\n""
+    : Foo// `tick` ""quote"" 'q'
+  , 65535 :pack,[ 3 ,
+    //	t
+  10  ,  ""1""
+
+,
+	42  ,""\n"" ,
+        // @lengthOf(
+  // 50% %s
+    	""a	b"" 	 // c
+	, 
+
+// " ++ [128512]%N ++ runes_of_ascii " emoji
+""1""] : 
+packetx
+	,3 :
+// " ++ [128512]%N ++ runes_of_ascii " emoji
+    MetaDataX ,
+}
+,
+	repeat	rootA {	options1
+
+,
+}  ,
+zchar[
+    255  // c
+	]  roots	`" ++ [28040; 24687; 31867; 22411]%N ++ runes_of_ascii "`
+,
+char[  42
+	]roots
+,	}	,	repeat zchar
+
+    ,match	i64_
+	as  stringy 
+{  //	t
+00 
+:roots , [
+0	, 	 /// triple
+      """ ++ [233]%N ++ runes_of_ascii "t" ++ [233]%N ++ runes_of_ascii """
+,//
+	  255
+    ,""\n""
+
+    ,
+255
+	,
+
+""a\""b""
+,
+
     1
-    )match	Z9_ as
-    calculatedFrom { """ ++ [28040; 24687]%N ++ runes_of_ascii """ :
-    Header, 0123456789 : asx [	255 ]//	t
-: // " ++ [128512]%N ++ runes_of_ascii " emoji
-rootA	""\n""
-: zchar , } , repeat float64 rootA, char[] repeatCount
-, repeat
-int32 metadata `" ++ [233]%N ++ runes_of_ascii "` , repeat
-char[
-7	] u8x ,
-    }
+,  0123456789  
+      // " ++ [27880; 37322]%N ++ runes_of_ascii "
+		] : stringy
+, 
+42
+    : metadata ""// no comment"" 
+: trueish [""\" ++ [233]%N ++ runes_of_ascii """
+	, 10 ]
+
+    :
+
+    u128 ,
+
+} ,
+
+    match
+
+u8x
+	as  int {
+255  :
+string_
+
+    , 
+""it's"":options1
+, }	, match 
+metadata as
+BodyLength
+{
+    ""\n"" : o
+,
+42  :
+int }
+	, 
+@rightPad (
+'\x00'
+	)
+
+    roots
+MetaDataX	,	u32
+
+Pad 
+,
+    string
+    repeatCount`" ++ [233]%N ++ runes_of_ascii "`
+    ,}
+	options
+{  Pad=	char[  42 ] ;
+
+Foo	= char[] ; 
+
+    /// triple
+//x
+    	roots=""`tick`"";
+    } packet  int {  @leftPad
+
+('0'
+) @tag( 4294967296	)  u8x
+@lengthOf(
+
+    matchKey	)
+	`line1
+line2`
+, 
+int16
+	packetx  `say ""hi""`
+    , 
+Z9_ `u8 x,`
+    ,	// 50% %s
+	uint8 i64_
+
+,Header chars  , }
 ")).
-Eval vm_compute in ("<<<M1431>>>" ++ check (runes_of_ascii "options {
-    LittleEndian = true;
-    ArrayPrefixLenType = u64;
-    FixedStringPadFromLeft = false;
+Eval vm_compute in ("<<<M4195>>>" ++ check (runes_of_ascii "options {
+    uint8x = ""a\""b"";
+    rootA = 255
+    packetx = uint64;
+    options1 = '0';
 }
-packet Quote {
+
+MetaData roots {
+    zchar[0123456789] string_,
 }
-root packet Order {
-    i64 Side2,
-    Quote,
-    u32 Px,
-    match Px as Body {
-        [119, 147] : Quote,
+
+packet A {
+    /// triple
+    @calculatedFrom(""abc"")
+    options1 options1,
+}
+
+root packet BodyLength {
+    @lengthOf(stringy)
+    @tag(007)
+    @leftPad('0')
+    repeat u {
+        char[0123456789] float @lengthOf(BodyLength),
+        char[1] MetaDataX `crlf
+        line`,
+        lengthOf `crlf
+        line`,
     },
-    u16 Flags @calculatedFrom(""CRC32""),
-}
-")).
-Eval vm_compute in ("<<<M47>>>" ++ check (runes_of_ascii "  root packet rootA { @leftPad
-(
-'\x00' // `tick` ""quote"" 'q'
-) @lengthOf(
-    crc ) @lengthOf( string_ ) uint16 Z9_ `
-`	, @lengthOf( Z9_ )char[4294967296
-    ]  zchar `say ""hi""` ,
-    u, match
-int as
-    stringy {
-3 :
-    body, }
-    ,	} 	 ")).
-Eval vm_compute in ("<<<M512>>>" ++ check (runes_of_ascii "options
-{
-matchKey = 42/// triple
-x='0' ;
-// packet A { u8 x, }
-//
-charz
-=
-// packet A { u8 x, }
-// trailing space 
-true  ; } MetaData BodyLength
-{
-uint8
-pack,zchar[ 1]float ,  float32 float32 x_y_z `` ,u32
-_x,i16 body  , }
-")).
-Eval vm_compute in ("<<<M407>>>" ++ check (runes_of_ascii "options
-{
-matchKey = 42 42/// triple
-x='0' ;
-// packet A { u8 x, }
-//
-charz
-=
-// packet A { u8 x, }
-// trailing space 
-true  ; } MetaData BodyLength
-{
-uint8
-pack,zchar[ 1]float ,  float32 x_y_z `` ,u32
-_x,i16 body  , }
-")).
-Eval vm_compute in ("<<<M578>>>" ++ check (runes_of_ascii "options
-{
-matchKey = 42/// triple
-x='0' ;
-// packet A { u8 x, }
-//
-charz
-=
-// packet A { u8 x, }
-// trailing space 
-true  ; } MetaData BodyLength
-{
-uint8
-pack,zchar[ 1]float ,  float32 x_y_z `` ,u32
-_x,i16 body  , / }
-")).
-Eval vm_compute in ("<<<M434>>>" ++ check (runes_of_ascii "options
-{
-matchKey = 42/// triple
-x='0' ;
-// packet A { u8 x, }
-//
-int64
-=
-// packet A { u8 x, }
-// trailing space 
-true  ; } MetaData BodyLength
-{
-uint8
-pack,zchar[ 1]float ,  float32 x_y_z `` ,u32
-_x,i16 body  , }
-")).
-Eval vm_compute in ("<<<M436>>>" ++ check (runes_of_ascii "options
-{
-matchKey = 42/// triple
-x='0' ;
-// packet A { u8 x, }
-//
-charz
-
-// packet A { u8 x, }
-// trailing space 
-true  ; } MetaData BodyLength
-{
-uint8
-pack,zchar[ 1]float ,  float32 x_y_z `` ,u32
-_x,i16 body  , }
-")).
-Eval vm_compute in ("<<<M471>>>" ++ check (runes_of_ascii "options
-{
-matchKey = 42/// triple
-x='0' ;
-// packet A { u8 x, }
-//
-charz
-=
-// packet A { u8 x, }
-// trailing space 
-true  ; } MetaData BodyLength
-{
-
-pack,zchar[ 1]float ,  float32 x_y_z `` ,u32
-_x,i16 body  , }
-")).
-Eval vm_compute in ("<<<M540>>>" ++ check (runes_of_ascii "options
-{
-matchKey = 42/// triple
-x='0' ;
-// packet A { u8 x, }
-//
-charz
-=
-// packet A { u8 x, }
-// trailing space 
-true  ; } MetaData BodyLength
-{
-uint8
-pack,zchar[ 1]float ,  float32 x_y_z `` ,u32")).
-Eval vm_compute in ("<<<M1412>>>" ++ check (runes_of_ascii "root packet Frame {
-    u8 K,
-    Logon first,
-    match K as Body {
-        1 : Logon,
-        2 : Logout,
+    @tag(0)
+    @rightPad('0')
+    @tag(1)
+    msg_type {
+        chars @lengthOf(trueish),
+        repeat int64 i8i8 `// not a comment`,
+        i8i8 @lengthOf(repeatCount),
+        string charz `tab	here`,
+    },
+    repeat u128 `crlf
+    line`,
+    @lengthOf(_x)
+    match int as f32a {
+        [""a\""b"", 10] : Logon,
+        [""" ++ [128512]%N ++ runes_of_ascii """, 65535] : A,
+    },
+    matchKey @lengthOf(falsey),
+    @lengthOf(metadata)
+    repeat Z9_ `two words`,//	t
+    @tag(4294967296)
+    body @lengthOf(float),
+    repeat x_y_z {
+        match zchar as string_ {
+            /// triple
+            """ ++ [233]%N ++ runes_of_ascii "t" ++ [233]%N ++ runes_of_ascii """ : u8x,
+            4294967296 : matchKey,
+        },
+        T {
+            u128,
+        },
+        match T as x_y_z {
+            42 : zchar,
+        },
     },
 }
+
+packet len {
+    repeat crc stringy,
+}// " ++ [128512]%N ++ runes_of_ascii " emoji")).
+Eval vm_compute in ("<<<M3563>>>" ++ check (runes_of_ascii "// top
+options // c0
+{ // c1a
+  // c1b
+LittleEndian // c2
+= // c3
+true // c4a
+  // c4b
+; // c5a
+  // c5b
+ArrayPrefixLenType = // c7
+u32 ; FixedStringPadFromLeft // c10
+= // c11
+true
+    // c12
+;
+    // c13
+FixedStringPadChar // c14a
+  // c14b
+=
+    // c15
+'0' ; }
+    // c18
+packet Party
+    // c20
+{ // c21
+} // c22
+root // c23a
+  // c23b
+packet // c24
+Heartbeat // c25a
+  // c25b
+{ // c26
+repeat // c27
+string
+    // c28
+Tail // c29
+, InRef14 // c31
+{
+    // c32
+InMsgkind17 // c33
+{ // c34a
+  // c34b
+int8 Flags // c36
+, // c37a
+  // c37b
+char[ 10 // c39
+] // c40a
+  // c40b
+Acct // c41a
+  // c41b
+, // c42a
+  // c42b
+zchar[
+    // c43
+4
+    // c44
+] sym ,
+    // c47
+i8 Px
+    // c49
+,
+    // c50
+} // c51
+, string Px
+    // c54
+,
+    // c55
+}
+    // c56
+, uint16 seqNo , // c60a
+  // c60b
+int64 // c61a
+  // c61b
+tag7 // c62
+, // c63
+u16 Note // c65
+,
+    // c66
+u32
+    // c67
+Px @lengthOf( Body // c70
+) , // c72
+match // c73
+Note // c74a
+  // c74b
+as
+    // c75
+Body // c76
+{ 96 : Party // c80a
+  // c80b
+,
+    // c81
+} // c82
+, // c83a
+  // c83b
+u16
+    // c84
+Acct
+    // c85
+@calculatedFrom( // c86a
+  // c86b
+""CRC32"" // c87
+) // c88
+,
+    // c89
+} // c90
+")).
+Eval vm_compute in ("<<<M1410>>>" ++ check (runes_of_ascii "options {
+	StringPrefixLenType = u16;
+	ArrayPrefixLenType = u16;
+}
+
+packet SampleBinary {
+	uint16 MsgType `" ++ [28040; 24687; 31867; 22411]%N ++ runes_of_ascii "`,
+	u16 BodyLenght @lengthOf(Body) `" ++ [28040; 24687; 20307; 38271; 24230]%N ++ runes_of_ascii "`,
+	match MsgType as Body {
+		1 : Logon,
+		2 : Logout,
+		3 : Heartbeat,
+		4 : RiskControlRequest,
+		5 : RiskControlResponse,
+	},
+	@calculatedFrom(""CRC32"")
+	u32 Ckecksum `" ++ [26657; 39564; 21644]%N ++ runes_of_ascii "`,
+}
+
 packet Logon {
-    string user,
+	@leftPad('0')
+	char[10] UserName `" ++ [29992; 25143; 21517]%N ++ runes_of_ascii "`,
+	string Password `" ++ [23494; 30721]%N ++ runes_of_ascii "`,
+	uint64 ClientId `" ++ [23458; 25143; 31471]%N ++ runes_of_ascii "ID`,
+	u16 HeartbeatInterval `" ++ [24515; 36339; 38388; 38548]%N ++ runes_of_ascii "`,
 }
-packet Logout {
-    u16 reason,
-}
-")).
-Eval vm_compute in ("<<<M2021>>>" ++ check (runes_of_ascii "
-options
-{ msg_type
 
-    = 
-00 string_ = 
-      // `tick` ""quote"" 'q'
+packet Logout {
+	@rightPad('0')
+	char[10] UserName `" ++ [29992; 25143; 21517]%N ++ runes_of_ascii "`,
+	uint64 ClientId `" ++ [23458; 25143; 31471]%N ++ runes_of_ascii "ID`,
+}
+
+packet Heartbeat {
+}
+
+packet RiskControlRequest {
+	string UniqueOrderId `" ++ [21807; 19968; 35746; 21333; 21495]%N ++ runes_of_ascii "`,
+	char[16] ClOrdID `" ++ [23458; 25143; 35746; 21333; 21495]%N ++ runes_of_ascii "`,
+	char[3] MarketID `" ++ [24066; 22330]%N ++ runes_of_ascii "id`,
+	char[12] SecurityID `" ++ [35777; 21048; 20195; 30721]%N ++ runes_of_ascii "`,
+	char Side `" ++ [20080; 21334; 26041; 21521]%N ++ runes_of_ascii "`,
+	char OrderType `" ++ [35746; 21333; 31867; 22411]%N ++ runes_of_ascii "`,
+	u64 Price `" ++ [20215; 26684]%N ++ runes_of_ascii "`,
+	u32 Qty `" ++ [25968; 37327]%N ++ runes_of_ascii "`,
+	repeat string ExtraInfo `" ++ [38468; 21152; 20449; 24687]%N ++ runes_of_ascii "`,
+	repeat SubOrder {
+		char[16] ClOrdID `" ++ [23376; 35746; 21333; 21495]%N ++ runes_of_ascii "`,
+		u64 Price `" ++ [23376; 35746; 21333; 20215; 26684]%N ++ runes_of_ascii "`,
+		u32 Qty `" ++ [23376; 35746; 21333; 25968; 37327]%N ++ runes_of_ascii "`,
+	},
+}
+
+packet RiskControlResponse {
+	string UniqueOrderId `" ++ [21807; 19968; 35746; 21333; 21495]%N ++ runes_of_ascii "`,
+	i32 Status `" ++ [29366; 24577]%N ++ runes_of_ascii "`,
+	string Msg `" ++ [32467; 26524; 20449; 24687]%N ++ runes_of_ascii "`,
+	repeat Detail,
+}
+
+packet Detail {
+	string RuleName `" ++ [35268; 21017; 21517; 31216]%N ++ runes_of_ascii "`,
+	u16 Code `" ++ [21407; 22240; 20195; 30721]%N ++ runes_of_ascii "`,
+}")).
+Eval vm_compute in ("<<<M4>>>" ++ check (runes_of_ascii "MetaData pack
+    { // trailing space 
+float32	pack `say ""hi""` //x
+, } root packet body {@calculatedFrom(""it's""  ) uint8x
+Pad , string
+/// triple
+//
+chars,  int8
+    a1
+@lengthOf( /// triple
+A), pack // a // b
+{o
+    {
+repeat Header
+    MetaDataX , }
+,
+charz ,Header/// triple
+@calculatedFrom( ""\n"" )
+// @lengthOf(
+// " ++ [128512]%N ++ runes_of_ascii " emoji
+,
+    }  ,
+@lengthOf(
+o ) match asx as
+// `tick` ""quote"" 'q'
+// trailing space 
+int { ""`tick`""
+    : //x
+x_y_z, 4294967296 //
+:u8x , ""a	b"" :
+repeatCount , ""a	b""
+:Pad 10:  packetx ,
+    } , A
+    o ,Packet{
+    u `doc` , repeat Header u8x	,  i8i8 As
+,} , @calculatedFrom( ""a\\"" ) charz
+{ char[]
+    a1
+    ,
+string
+Pad
+    ,x repeatCount, metadata
+    {// c
+chars{ body`
+`
+    , string u8x @lengthOf( u128 ) , match string_ as BodyLength {
+[
+    ""`tick`"" // " ++ [27880; 37322]%N ++ runes_of_ascii "
+] :a1 ,	""packet"":
+    charz , }  , } , char[]repeatCount , int16 msg_type ,
+    uint8x , },}	,
+@lengthOf(
+float ) // `tick` ""quote"" 'q'
+match trueish as
+    Header{
+    // packet A { u8 x, }
+    [ ""{,}""// " ++ [27880; 37322]%N ++ runes_of_ascii "
+,""1"" ] :f32a
+,
+}
+    , } 	 ")).
+Eval vm_compute in ("<<<M69>>>" ++ check (runes_of_ascii "packet
+    Z9_ { @rightPad
+('\x00' ) repeat Header
+    options1 , Header
+MetaDataX  `` ,
+zchar[0 ]o
+, }
+    packet chars {
+    // `tick` ""quote"" 'q'
+    }packet len
+    //	t
+    {
+repeat	char[] Foo , @rightPad (
+    '0'
+)	zchar[
+    007
+    ]
+a1 `" ++ [233]%N ++ runes_of_ascii "` ,repeat
+    BodyLength leftPad , } root packet u8x { f64 lengthOf @calculatedFrom( ""CRC32"" )
+,string zchar
+    @lengthOf( int ) `tab	here`
+    , int calculatedFrom	,
+@lengthOf(As	)
+match falsey as	asx {65535 : _x[ 1 ] :
+    //x
+    u 007 : uint8x 00
+    // " ++ [128512]%N ++ runes_of_ascii " emoji
+    :f32a  , """ ++ [233]%N ++ runes_of_ascii "t" ++ [233]%N ++ runes_of_ascii """: Packet , [42  , ""a\""b"" ]
+: len , }
+    , @lengthOf(stringy
+    ) @calculatedFrom( ""1"" )
+repeat A{ char[]
+    lengthOf
+// " ++ [27880; 37322]%N ++ runes_of_ascii "
+// 50% %s
+`
+` ,
+    } , MetaDataX
+@calculatedFrom(""""
+    )
+`it's` , @lengthOf( T
+)match	Foo  as crc { 10
+    :
+    trueish
+    ,
+42 // trailing space 
+: Pad , // c
+[4294967296 , // " ++ [27880; 37322]%N ++ runes_of_ascii "
+""// no comment""  , ""{,}""
+    ]	: float , }, @lengthOf(
+    u8x ) a1 @calculatedFrom( ""\" ++ [233]%N ++ runes_of_ascii """ )
+    ,  } // a // b")).
+Eval vm_compute in ("<<<M3919>>>" ++ check (runes_of_ascii "root packet trueish {
+    @lengthOf(A)
+    repeat roots {
+        repeat len stringy `two words`,
+        A @calculatedFrom(""x y""),
+        //x
+        // c
+        match MetaDataX as roots {
+            ""CRC32"" : len,
+            /// triple
+            [""\" ++ [233]%N ++ runes_of_ascii """, """ ++ [28040; 24687]%N ++ runes_of_ascii """] : BodyLength,
+            """ ++ [28040; 24687]%N ++ runes_of_ascii """ : stringy,
+        },
+    },
+    A stringy,
+    zchar[7] chars `" ++ [28040; 24687; 31867; 22411]%N ++ runes_of_ascii "`,
+    Pad {
+        i8i8,
+        match roots as u128 {
+            ""x y"" : u128,
+            [1] : uint8x,
+            0123456789 : f32a,
+            // " ++ [128512]%N ++ runes_of_ascii " emoji
+            ""it's"" : u8x,
+        },
+        match T as repeatCount {
+            255 : falsey,
+            //
+            [1, ""a\""b""] : x_y_z,
+            [
+                ""packet"", 42, """ ++ [128512]%N ++ runes_of_ascii """, """ ++ [233]%N ++ runes_of_ascii "t" ++ [233]%N ++ runes_of_ascii """, 3,
+                ""a	b""
+            ] : lengthOf,
+            0 : uint8x,
+            42 : BodyLength,
+            [0, ""x y""] : Header,
+        },
+        zchar[42] Foo,
+    },
+}")).
+Eval vm_compute in ("<<<M610>>>" ++ check (runes_of_ascii "packet	u
+    {
+// trailing space 
+//	t
+} root packet len{
+repeat matchKey{
+    string
+    // a // b
+    trueish ,
+msg_type { A {char[] i8i8`it's`, } ,
+}
+    // c
+    , match crc as msg_type{ [7
+    ,7// 50% %s
+, ""x y"" , /// triple
+""it's""] : Packet ,
+[
+0123456789,
+    ""`tick`"" , 0 , 7
+]:stringy 0:i64_
+    //
+    }
+, char[] leftPad `" ++ [28040; 24687; 31867; 22411]%N ++ runes_of_ascii "` ,
+}, i32
+    Header
+`doc`
+    , @lengthOf( MetaDataX
+    // @lengthOf(
+    ) u32 zchar  ,
+// " ++ [27880; 37322]%N ++ runes_of_ascii "
+// " ++ [27880; 37322]%N ++ runes_of_ascii "
+repeat  zchar[ 10 ] charz`doc` ,char[
+    // `tick` ""quote"" 'q'
+    65535] //	t
+f32a
+    ,
+    // a // b
+    metadata , @leftPad
+//x
+// " ++ [27880; 37322]%N ++ runes_of_ascii "
+(
+)
+match u8x	as roots { ""\n"" : MetaDataX """ ++ [233]%N ++ runes_of_ascii "t" ++ [233]%N ++ runes_of_ascii """ :u128 ,""" ++ [233]%N ++ runes_of_ascii "t" ++ [233]%N ++ runes_of_ascii """: u , 3:
+    // `tick` ""quote"" 'q'
+    Z9_ ,
+0123456789	: calculatedFrom
+42 : a1	,  }
+, match x_y_z
+as u {65535 : stringy ,""a\\"" :
+options1 , ""\" ++ [233]%N ++ runes_of_ascii """:
+    // packet A { u8 x, }
+    _x,
+} ,
+    u64 float@lengthOf(
+    Z9_ ) , }
+")).
+Eval vm_compute in ("<<<M429>>>" ++ check (runes_of_ascii "  packet repeatCount { @leftPad ( '0' ) @lengthOf(
+int
+    )f32	f32a,repeat char[ 7 ] _x , f64
+x_y_z , @tag( 007	) // c
+@leftPad// a // b
+( '\x00'
+    )
+int8 // 50% %s
+trueish @calculatedFrom(
+    """ ++ [128512]%N ++ runes_of_ascii """  ) `` ,
+@leftPad( ' ' )
+    int32
+u128 @lengthOf(string_
+) , @lengthOf(BodyLength) match metadata as
+Z9_ { ""a\\""
+: Logon 7 : Pad
+    ,
+    3
+    // a // b
+    : Foo ,
+    [
+10 ]
+: msg_type
+//	t
+// `tick` ""quote"" 'q'
+, ""\n"" :
+x} , match trueish as pack {
+    // trailing space 
+    [
+    ""a	b"" ,
+    4294967296
+, """ ++ [233]%N ++ runes_of_ascii "t" ++ [233]%N ++ runes_of_ascii """ ,42 ,
+// " ++ [27880; 37322]%N ++ runes_of_ascii "
+// c
+""{,}"" ,	7	, 255 ] : Logon // `tick` ""quote"" 'q'
+,
+    [
+    ""{,}""
+,	42
+, 00 ]
+    /// triple
+    :crc , 42 :
+    A
+, """ ++ [28040; 24687]%N ++ runes_of_ascii """ :	asx, [ """ ++ [128512]%N ++ runes_of_ascii """,	65535
+    , ""`tick`""
+, 7 , ""x y"" ,
+    // " ++ [27880; 37322]%N ++ runes_of_ascii "
+    ""CRC32""
+, //
+""" ++ [28040; 24687]%N ++ runes_of_ascii """
+// `tick` ""quote"" 'q'
+// @lengthOf(
+] : BodyLength
+, } ,repeat i8
+    crc
+, }
+
+")).
+Eval vm_compute in ("<<<M3813>>>" ++ check (runes_of_ascii "packet tag {
+    @leftPad()
+    i16 stringy,
+    char[] packetx @calculatedFrom(""// no comment""),
+    @lengthOf(float)
+    repeat int64 As `" ++ [28040; 24687; 31867; 22411]%N ++ runes_of_ascii "`,
+    @calculatedFrom(""" ++ [28040; 24687]%N ++ runes_of_ascii """)
+    zchar[42] trueish,
+    charz T,
+    crc uint8x,
+    f32a `two words`,
+}
+
+packet MetaDataX {
+    char[0123456789] u128 @calculatedFrom(""x y""),
+}
+
+root packet i8i8 {
+    packetx uint8x,
+    asx {
+        zchar[255] leftPad @calculatedFrom(""\n""),
+        float64 i8i8 @calculatedFrom(""packet""),
+        repeat i8 zchar,
+    },
+    @calculatedFrom(""`tick`"")
+    zchar[00] chars @calculatedFrom(""" ++ [28040; 24687]%N ++ runes_of_ascii """) `u8 x,`,
+    f32 BodyLength @lengthOf(calculatedFrom) `" ++ [28040; 24687; 31867; 22411]%N ++ runes_of_ascii "`,
+    uint32 MetaDataX,
+}
+
+packet Foo {
+    @rightPad()
+    @rightPad()
+    uint64 u8x,
+}
+
+options {
+    u8x = true
+    falsey = char[255]//	t
+}// trailing space ")).
+Eval vm_compute in ("<<<M948>>>" ++ check (runes_of_ascii "root packet
+stringy
+{ string repeatCount `two words` // `tick` ""quote"" 'q'
+, match A as tag
+    { [ """ ++ [28040; 24687]%N ++ runes_of_ascii """ ] : i8i8 ,
+42 : u8x
+    ,
+[ 65535 ] : MetaDataX , ""// no comment"" :// c
+leftPad ,
+    // `tick` ""quote"" 'q'
+    } ,@tag(
+0
+) int8 Packet , @calculatedFrom( """ ++ [128512]%N ++ runes_of_ascii """
+    )@calculatedFrom(""a	b"" ) @rightPad ( '\x00' // 50% %s
+) trueish, match
+    int	as
+zchar {	[
+// @lengthOf(
+//
+65535
+,42 , 3
+    , ""`tick`"" ,	0 ,
+""a\\""
+]:
+/// triple
+/// triple
+T,[ 4294967296 ]	: falsey
+, 65535 : falsey, // packet A { u8 x, }
+[ ""a\""b"" , ""a	b"" , 0 ,42
+, ""x y"" , ""a\""b""
+    ] :body //
+,""packet"":float, }, @tag( 255 )  leftPad	@lengthOf( msg_type) , @lengthOf( As  ) zchar[
+0123456789 ] Packet ,
+    zchar[42 ] //x
+Pad ,}packet Logon  {
+repeat
+i16  falsey `a\`, }
+")).
+Eval vm_compute in ("<<<M3572>>>" ++ check (runes_of_ascii "
+options 
+{StringPrefixLenType =
+	u64;
+ArrayPrefixLenType=
+    u8
+;
+FixedStringPadFromLeft
+	=
+true ;  FixedStringPadChar
+	=
+	'0'  ; } packet
+    Ack
+	{ 
+@rightPad(	'0'
+)
+char[ 
+7
+
+    ] Px ,u64 msgKind
+
+    ,i8  x , }
+
+packet
+    Party  { i8
+	sym ,
+repeat Ack, 
+repeat InPx10  {
+repeat
+
+    Ack
+
+    ,zchar[
+    1]
+Ref, uint64 Qty
+    , u16 
+tag7 
+, 
+}
+    ,
+int8
+	clOrdID
+,
+	}packet Fill
+    {	}
+    packet Order { }  root
+
+packet Quote { 
+Order
+,
+    @leftPad	(
+
+'0'	)
+char[
+
+    1 ]Side2
+	, string  venue
+
+,
+    char[	7 ]
+lastPx, u16
+	tag7
+    , u32 clOrdID
+    ,
+
+match
+clOrdID as Body	{	30
+
+:Order ,
+	196  :
+Party,10
+    :
+    Fill 
+,28
+:
+Ack	,
+}
+
+,
+u32
+sym	@calculatedFrom(""CRC32"")
+,
+} ")).
+Eval vm_compute in ("<<<M613>>>" ++ check (runes_of_ascii "root
+    packet repeatCount
+{ i64_@lengthOf( // packet A { u8 x, }
+uint8x //x
+)// trailing space 
+, @calculatedFrom(
+""a\\"")repeat
+As{
+char[ 1	] f32a  , char[
+255]lengthOf
+@lengthOf( stringy ) // a // b
+, repeat len
+    // " ++ [27880; 37322]%N ++ runes_of_ascii "
+    { match i8i8 as
+msg_type { [ // c
+""" ++ [128512]%N ++ runes_of_ascii """ //	t
+, ""`tick`""
+] // " ++ [27880; 37322]%N ++ runes_of_ascii "
+:_x , },  }
+, }	,}packet options1
+{
+// c
+// trailing space 
+match T
+    as falsey
+{ ""\" ++ [233]%N ++ runes_of_ascii """
+: o
+, [""`tick`"" ,
+// c
+// trailing space 
+""{,}"" ] : Logon, // `tick` ""quote"" 'q'
+""" ++ [28040; 24687]%N ++ runes_of_ascii """// c
+: metadata 00: x,[ ""x y""
+    ,  ""CRC32""
+// " ++ [27880; 37322]%N ++ runes_of_ascii "
+//x
+,65535]  : packetx
+, ""\n"":_x // " ++ [128512]%N ++ runes_of_ascii " emoji
+, },u8
+stringy@calculatedFrom( ""\" ++ [233]%N ++ runes_of_ascii """ ) , u8 Pad , roots trueish	`" ++ [233]%N ++ runes_of_ascii "` ,
+    }
+MetaData charz { Pad charz
+    , }")).
+Eval vm_compute in ("<<<M3847>>>" ++ check (runes_of_ascii "packet u {
+    A,
+    u repeatCount `tab	here`,
+    @lengthOf(msg_type)
+    crc @lengthOf(len),
+    char[] matchKey,
+    @calculatedFrom(""" ++ [28040; 24687]%N ++ runes_of_ascii """)
+    repeat Z9_,
+    zchar[65535] charz,
+    i16 pack @lengthOf(charz),
+    chars @calculatedFrom(""\n""),
+    @rightPad('0')
+    int16 calculatedFrom `crlf
+    line`,
+    @tag(7)
+    int64 chars `doc`,
+}
+
+packet chars {
+    char[42] asx @calculatedFrom(""packet""),
+    match roots as crc {
+        //
+        0 : u,
+        // c
+        00 : f32a,
+        [65535, ""abc""] : falsey,
+        // " ++ [27880; 37322]%N ++ runes_of_ascii "
+        ""{,}"" : tag,
+    },
+    calculatedFrom i8i8 `two words`,
+    // packet A { u8 x, }
+}
+
+options {
+    _x = char[];
+}")).
+Eval vm_compute in ("<<<M4286>>>" ++ check (runes_of_ascii "
+packet options1 
+{ repeat	A	/// triple
+
+{
+    BodyLength
+
+@calculatedFrom(	""abc""
+) `line1
+line2`
+, //
+}	, u64
+
+chars
+
+    `{ , }`	,
+@calculatedFrom(""\n"") u16 _x
+
+,
+
+    u16  As ,
+	// " ++ [128512]%N ++ runes_of_ascii " emoji
+
+  match u
+as
+    pack{ 1
+	:x_y_z ,
+
+},
+
+    @tag( // trailing space 
+	4294967296) @calculatedFrom(
+""a\\""
+)
+	@leftPad	( 
+    // " ++ [128512]%N ++ runes_of_ascii " emoji
+
+' '  ) uint64 chars
+@lengthOf( Pad 
+    // a // b
+    	//	t
+	), @leftPad	('0' )
+char[]  o
+
+    , @calculatedFrom( ""\" ++ [233]%N ++ runes_of_ascii """
+	) char
+
+charz
+    @lengthOf(
+T	)
+,repeat
+// " ++ [27880; 37322]%N ++ runes_of_ascii "
+
+  msg_type  rootA
+
+    ,@leftPad	( 
+' '
+    )	@tag(
+    1 ) char[0
+]
+
+    MetaDataX 
+@lengthOf(	Foo  ) ,	}
+
+")).
+Eval vm_compute in ("<<<M435>>>" ++ check (runes_of_ascii "root packet Foo
+    { match
+rootA as Packet {255	: o , """":
+Logon , """ ++ [128512]%N ++ runes_of_ascii """ :int // `tick` ""quote"" 'q'
+, 1
+    // a // b
+    :
+x_y_z ,
+4294967296 : As ,
+[ ""\n"" , // `tick` ""quote"" 'q'
+""`tick`"" ] : lengthOf	,
+}
+, zchar[ 10 ]
+Packet
+    , zchar[00 ]uint8x
+, repeat msg_type string_ ,	repeat
+    zchar[ 007 ]
+    Pad``
+    // c
+    ,
+match
+    rootA as  stringy
+{ 007 :leftPad /// triple
+,
+[ """ ++ [233]%N ++ runes_of_ascii "t" ++ [233]%N ++ runes_of_ascii """
+// 50% %s
+//
+,
+    7 ] :  x }
+,
+@leftPad
+( '0' )
+string zchar @lengthOf(
+    repeatCount
+    ) `crlf
+line`
+    ,match o as _x{""`tick`""
+:
+Header // " ++ [27880; 37322]%N ++ runes_of_ascii "
+,
+""a	b"" :
+    T
+}
+,
+Header `line1
+line2` ,	}
+")).
+Eval vm_compute in ("<<<M287>>>" ++ check (runes_of_ascii "packet u128 { @tag( // a // b
+10 )char[ 0123456789] A ``
+    ,
+// c
+//
+char[ 1] matchKey`say ""hi""` ,
+    // `tick` ""quote"" 'q'
+    T
+{
+    u128 leftPad , } ,
+@calculatedFrom( ""`tick`"")
+    match Logon
+as
+    msg_type
+    {// c
+""it's"":int , """ ++ [128512]%N ++ runes_of_ascii """
+    // c
+    :charz ""a\\"" : options1,
+    },
+}
+    MetaData
+f32a {i64 pack
+,
+uint8 /// triple
+int , tag packetx `// not a comment` , char[
+    7 ]charz
+,// c
+a1 As ,u32 As// " ++ [27880; 37322]%N ++ runes_of_ascii "
+, } options{
+_x =  1; }
+packet uint8x
+{ // trailing space 
+@calculatedFrom(""""
+)  u8x lengthOf
+// @lengthOf(
+// trailing space 
+`say ""hi""` , }
+")).
+Eval vm_compute in ("<<<M4236>>>" ++ check (runes_of_ascii "
+options {	/// triple
+falsey=
+    ' 'Pad
+= ' '	;crc
+=
+
+    '0'  ;	tag
+
+    =
+	007
+	} 
+/// triple
+    //
+
+MetaData
+asx
+    { 
+chars
+
+metadata`" ++ [28040; 24687; 31867; 22411]%N ++ runes_of_ascii "` ,  asx
+
+chars // `tick` ""quote"" 'q'
+	,char[
+	007
+
+] 
+    // c
+
+// 50% %s
+  A`// not a comment`
+
+,char[]
+crc 
+,} 	 // a // b
+  MetaData	T{
+
+    char  BodyLength 
+,char[	255//
+      ]
+    f32a
+
+,	char[ 10
+] 	 // " ++ [128512]%N ++ runes_of_ascii " emoji
+  trueish
+,
+    int64 
+i8i8 	 // " ++ [128512]%N ++ runes_of_ascii " emoji
+  	,u16
+
+    rootA
+	, zchar[
+
+    0	// packet A { u8 x, }
+] Z9_`// not a comment`
+,
+
+    }
+options {
+    len	= i16;
+
+}
+
+")).
+Eval vm_compute in ("<<<M4168>>>" ++ check (runes_of_ascii "
+MetaData
+i8i8 { Packet 	 // `tick` ""quote"" 'q'
+  roots,  }
+
+    root	packet
+    //	t
+	// packet A { u8 x, }
+	matchKey { @leftPad	(  '\x00'
+	)charz ,
+
+match
+
+MetaDataX 	 // c
+  as  T { [42
+    ]:
+_x 
+    /// triple
+  // " ++ [27880; 37322]%N ++ runes_of_ascii "
+  , // 50% %s
+	42
+: 
+Packet
+0 // `tick` ""quote"" 'q'
+	:
+
+    chars 
+	// packet A { u8 x, }
+    ,
+	    // @lengthOf(
+
+//x
+255 :
+
+    Foo }
+
+    , @tag(
+	007 ) 	 /// triple
+repeat	int32
+
+    chars
+,}
+packet x_y_z
+
+    {
+stringy
+	zchar
+
+    `it's` ,
+
+repeat
+    trueish 
+    /// triple
+,	} ")).
+Eval vm_compute in ("<<<M3430>>>" ++ check (runes_of_ascii "// top
+options // c0
+{ // c1
+}
+    // c2
+options // c3a
+  // c3b
+{ // c4a
+  // c4b
+string_ // c5
+= // c6a
+  // c6b
+false // c7a
+  // c7b
+; // c8
+msg_type // c9
+= // c10
+""1"" // c11a
+  // c11b
+; // c12a
+  // c12b
+} MetaData // c14a
+  // c14b
+lengthOf {
+    // c16
+zchar[
+    // c17
+4294967296
+    // c18
+] // c19a
+  // c19b
+Z9_
+    // c20
+, // c21a
+  // c21b
+uint8 // c22
+i8i8 // c23
+`two words` ,
+    // c25
+char[
+    // c26
+7 // c27a
+  // c27b
+]
+    // c28
+charz
+    // c29
+, // c30a
+  // c30b
+}
+    // c31
+")).
+Eval vm_compute in ("<<<M3912>>>" ++ check (runes_of_ascii "MetaData crc {
+    float zchar,
+}
+
+root packet msg_type {
+    repeat u128 {
+        char[] body,
+        matchKey u128,
+    },
+    repeat chars {
+        // " ++ [27880; 37322]%N ++ runes_of_ascii "
+        match rootA as As {
+            ""packet"" : falsey,
+            [65535, 0] : roots,
+            // 50% %s
+            [""" ++ [128512]%N ++ runes_of_ascii """, 0] : T,
+        },
+    },
+}
+
+MetaData tag {
+    char[3] repeatCount,
+    string options1 `two words`,
+    char[] x,// a // b
+    body lengthOf,
+    roots i64_,//	t
+    options1 T `{ , }`,
+}")).
+Eval vm_compute in ("<<<M3869>>>" ++ check (runes_of_ascii "root packet Z9_ {
+    char[10] falsey @calculatedFrom(""a	b"") `// not a comment`,
+}
+
+root packet pack {
+    Header {
+        match f32a as u128 {
+            42 : i8i8,
+            [""\" ++ [233]%N ++ runes_of_ascii """, ""a\""b"", 00, 007, 42] : chars,
+        },
+        repeat MetaDataX `" ++ [233]%N ++ runes_of_ascii "`,
+        //
+        // packet A { u8 x, }
+    },
+    uint16 u @lengthOf(As) `crlf
+    line`,
+    char[0123456789] BodyLength,
+    charz,
+}
+
+MetaData float {
+    char[] stringy ``,
+    float falsey,
+}")).
+Eval vm_compute in ("<<<M704>>>" ++ check (runes_of_ascii "root packet BodyLength { @tag(  007 ) @tag(
+    0123456789 ) @lengthOf( Pad )
+    // packet A { u8 x, }
+    match
+    // @lengthOf(
+    zchar
+as msg_type { [  ""`tick`""] :calculatedFrom, 00 :
+    uint8x ,
+0123456789  : f32a [10	, ""// no comment"" ,""" ++ [233]%N ++ runes_of_ascii "t" ++ [233]%N ++ runes_of_ascii """
+, 7 ]
+    :
+    chars //	t
+""x y"": // 50% %s
+zchar	,
+[ ""a	b"" , 00 ,""a	b"" ,65535
+    ,
+7, ""CRC32""
+, 0123456789]: x
+// 50% %s
+// a // b
+} , @lengthOf( Pad //	t
+) repeat	asx matchKey , } 	 ")).
+Eval vm_compute in ("<<<M3983>>>" ++ check (runes_of_ascii "packet f32a {
+    @leftPad('0')
+    repeat zchar[10] zchar ``,
+}
+
+MetaData u {
+    i32 asx,
+    i64 string_ `it's`,
+    Pad metadata,
+}
+
+packet As {
+    @tag(10)
+    zchar[10] leftPad,
+    @calculatedFrom(""a\""b"")
+    // trailing space 
+    @lengthOf(Header)
+    @calculatedFrom(""\" ++ [233]%N ++ runes_of_ascii """)
+    char[007] matchKey @lengthOf(u128) `100% of %d`,
+    int @calculatedFrom(""`tick`"") `a\`,
+    f64 o,
+}
+
+MetaData o {
+    uint16 matchKey,
+}")).
+Eval vm_compute in ("<<<M242>>>" ++ check (runes_of_ascii "root packet Header {} // `tick` ""quote"" 'q'
+packet u { @tag(
+3)MetaDataX @lengthOf(// `tick` ""quote"" 'q'
+BodyLength
+)
+// 50% %s
+//
+`tab	here`,
+} root packet asx
+{ string chars,
+} root
+packet
+    repeatCount { @lengthOf( // c
+Packet ) match roots  as i8i8 {
+    4294967296: crc, [// packet A { u8 x, }
+""a\\""
+, 3
+    , 4294967296
+/// triple
+// trailing space 
+,	7 ,
+""x y"",	4294967296
+    ,""\" ++ [233]%N ++ runes_of_ascii """
+    ]  :
+o } , }
+")).
+Eval vm_compute in ("<<<M203>>>" ++ check (runes_of_ascii "packet roots
+    { string zchar ,repeat string matchKey`line1
+line2`
+,repeat i32 x ,
+    u32 a1@calculatedFrom(
+""" ++ [233]%N ++ runes_of_ascii "t" ++ [233]%N ++ runes_of_ascii """),
+    @rightPad (
+) //x
+@tag(007 ) @calculatedFrom(  ""a	b"") repeat roots  `two words`,match
+/// triple
+// " ++ [128512]%N ++ runes_of_ascii " emoji
+Packet//x
+as
+zchar {	""CRC32""  : Logon }  ,@calculatedFrom(""{,}"" ) @lengthOf(	a1) repeat u128
+// c
+/// triple
+{ repeat zchar[ 007
+]packetx , }, a1 , } // 50% %s")).
+Eval vm_compute in ("<<<M1280>>>" ++ check (runes_of_ascii "MetaData matchKey /// triple
+{	zchar[
+1
+    // a // b
+    ] crc`{ , }`  ,
+    float
+o `line1
+line2`	, A	stringy `" ++ [233]%N ++ runes_of_ascii "`, u64
+Logon `crlf
+line` , } packet roots
+    { @lengthOf( u8x ) T@lengthOf( x) `// not a comment` , x @calculatedFrom(// 50% %s
+""// no comment"") ,  @leftPad ( ' ')
+zchar[ 0123456789//x
+]
+string_
+    ,
+} packet pack
+{ @tag( /// triple
+7) repeat	i64 charz
+, }
+")).
+Eval vm_compute in ("<<<M3988>>>" ++ check (runes_of_ascii "MetaData uint8x {
+    i64 crc,
+    u16 Pad `" ++ [233]%N ++ runes_of_ascii "`,
+    float64 falsey,
+    i64 Packet,
+    //	t
+    // " ++ [128512]%N ++ runes_of_ascii " emoji
+}
+
+MetaData x_y_z {
+}
+
+packet x_y_z {
+}
+
+options {
+    crc = int8;
+    i8i8 = ""\n""
+    body = char[]
+    BodyLength = ' ';
+    i64_ = '\x00'
+    // a // b
+    // " ++ [27880; 37322]%N ++ runes_of_ascii "
+}
+
+options {
+    len = true
+    roots = ' ';
+    trueish = '0'
+    a1 = 10;
+    Z9_ = f32;
+}")).
+Eval vm_compute in ("<<<M3453>>>" ++ check (runes_of_ascii "packet B // c1
+{ // c2a
+  // c2b
+u8 // c3a
+  // c3b
+a
+    // c4
+, // c5a
+  // c5b
+} root packet // c8
+P // c9a
+  // c9b
+{ u8 K // c12a
+  // c12b
+,
+    // c13
+u8 // c14a
+  // c14b
+L // c15
+@lengthOf( // c16
+Body ) // c18
+, match
+    // c20
+K as // c22
+Body // c23a
+  // c23b
+{
+    // c24
+1 : B
+    // c27
+, }
+    // c29
+, // c30a
+  // c30b
+}
+    // c31
+")).
+Eval vm_compute in ("<<<M401>>>" ++ check (runes_of_ascii "packet	As { @leftPad	(
+' '
+)repeat roots matchKey , // @lengthOf(
+string i8i8 @lengthOf( x_y_z)
+    // " ++ [27880; 37322]%N ++ runes_of_ascii "
+    , repeat
+float
+Pad ,
+// `tick` ""quote"" 'q'
+// trailing space 
+float32
+msg_type	,u64 int
+    ,  repeat  char[4294967296
+]
+    tag`two words` , @calculatedFrom( ""\" ++ [233]%N ++ runes_of_ascii """ ) @calculatedFrom( ""1"" )
+    char[]// @lengthOf(
+leftPad ,}")).
+Eval vm_compute in ("<<<M3604>>>" ++ check (runes_of_ascii "
+
+  packet msg_type {  @leftPad  (' '
+)
+@lengthOf(
+    calculatedFrom )
+    match
+    zchar  as
+
+    u
+
+{ [
+
+""packet""
+,
+
+    ""a	b"",
+
+    10
+	    //x
+  ,	255
+
+]// packet A { u8 x, }
+: // `tick` ""quote"" 'q'
+  Pad 
+, 
+  // " ++ [128512]%N ++ runes_of_ascii " emoji
 
   // c
-  	0
-x
+  	65535  :
+	MetaDataX // trailing space 
+	  ,255
 
-    = zchar[
-255 ];
-    leftPad = false 
-;
-	f32a // @lengthOf(
-    =
-	007 ; 	 // " ++ [27880; 37322]%N ++ runes_of_ascii "
-  }
-")).
-Eval vm_compute in ("<<<M147>>>" ++ check (runes_of_ascii "root packet stringy { @tag( 7 ) @tag( 1
-    ) @rightPad (
-'\x00'
-    )Foo // `tick` ""quote"" 'q'
-x`crlf
-line` ,@calculatedFrom(  ""a	b"" ) roots //x
-`it's`// @lengthOf(
+    : o
 ,
-    }")).
-Eval vm_compute in ("<<<M98>>>" ++ check (runes_of_ascii "root // trailing space 
-packet Foo
-    // " ++ [128512]%N ++ runes_of_ascii " emoji
-    {
-    //x
-    char[] body`crlf
-line`, // " ++ [128512]%N ++ runes_of_ascii " emoji
-} options {
-    _x=  false
-    }
-packet BodyLength	{
-} 	 ")).
-Eval vm_compute in ("<<<M1598>>>" ++ check (runes_of_ascii "options {
-    Logon = ""{,}""
-}//	t
+    } 
+,	}")).
+Eval vm_compute in ("<<<M1182>>>" ++ check (runes_of_ascii "packet	leftPad{}  packet
+A {  A
+    @calculatedFrom(""" ++ [128512]%N ++ runes_of_ascii """
+    ) , @calculatedFrom(
+    """ ++ [128512]%N ++ runes_of_ascii """
+) repeat float i64_ `say ""hi""` , @lengthOf( // packet A { u8 x, }
+uint8x  ) repeat i64_  {
+chars repeatCount
+,  }	, } root packet x_y_z {
+    }	MetaData i64_ /// triple
+{ zchar[
+7] uint8x
+    , } // `tick` ""quote"" 'q'")).
+Eval vm_compute in ("<<<M3628>>>" ++ check (runes_of_ascii "packet	// packet A { u8 x, }
+    repeatCount
 
-MetaData leftPad {
-    i8 zchar `// not a comment`,
+{  // packet A { u8 x, }
+      @leftPad  ('\x00' 
+)repeat u8x
+
+    MetaDataX
+
+`crlf
+line`
+    ,repeat
+char[] MetaDataX
+
+    ,
+
+uint8x @calculatedFrom(  ""a\""b"" 
+
+    // c
+	// packet A { u8 x, }
+
+)
+	`tab	here`, 	 //
+	  }MetaData	pack
+    { 
+}
+")).
+Eval vm_compute in ("<<<M315>>>" ++ check (runes_of_ascii "packet zchar{	int
+{ match MetaDataX
+    as _x
+    {3 :	Pad ,} , f64 leftPad// `tick` ""quote"" 'q'
+,
+    // " ++ [128512]%N ++ runes_of_ascii " emoji
+    } ,
+@rightPad(
+    // 50% %s
+    '0' )
+repeat i64 A , o pack `crlf
+line`
+,} options {
+metadata=""a	b""// c
+crc
+    =255; metadata= char[	007 ]; BodyLength
+= string  }")).
+Eval vm_compute in ("<<<M249>>>" ++ check (runes_of_ascii "MetaData _x
+    { i32 T `it's`,
+    stringy len // c
+`// not a comment` // c
+,
+}
+    packet	chars { tag
+    @lengthOf(
+    trueish	) `100% of %d` ,
+    // @lengthOf(
+    } packet u
+{ char[] Foo @calculatedFrom( ""\n"" )
+    ,
+}
+    root packet
+    string_ { u64 As
+`u8 x,` , }
+//x
+")).
+Eval vm_compute in ("<<<M1932>>>" ++ check (runes_of_ascii "packet	packetx { // trailing space 
+x_y_z
+{
+string
+charz ,
+string x// @lengthOf(
+`two words`
+    ,  u8x { // `tick` ""quote"" 'q'
+charz `100% of %d` // packet A { u8 x, }
+,} }// " ++ [27880; 37322]%N ++ runes_of_ascii "
+,} , }
+    // a // b
+    packet metadata {  @leftPad ( '0') repeat i32 options1 ,u64 uint8x , }
+")).
+Eval vm_compute in ("<<<M1873>>>" ++ check (runes_of_ascii "packet	packetx { // trailing space 
+x_y_z
+{
+charz
+string ,
+string x// @lengthOf(
+`two words`
+    ,  u8x { // `tick` ""quote"" 'q'
+charz `100% of %d` // packet A { u8 x, }
+,}// " ++ [27880; 37322]%N ++ runes_of_ascii "
+,} , }
+    // a // b
+    packet metadata {  @leftPad ( '0') repeat i32 options1 ,u64 uint8x , }
+")).
+Eval vm_compute in ("<<<M2018>>>" ++ check (runes_of_ascii "packet	packetx { // trailing space 
+x_y_z
+{
+string
+charz ,
+string x// @lengthOf(
+`two words`
+    ,  u8x { // `tick` ""quote"" 'q'
+charz `100% of %d` // packet A { u8 x, }
+,}// " ++ [27880; 37322]%N ++ runes_of_ascii "
+,} , }
+    // a // b
+    packet metadata {  @leftPad ( '0') repeat i32 options1 ,u64 , uint8x }
+")).
+Eval vm_compute in ("<<<M4443>>>" ++ check (runes_of_ascii "options {
+    asx = ' '
+    Header = uint16
+    repeatCount = ""x y""
+    msg_type = 7;
 }
 
-MetaData len {
-    char[] u128,
-}// " ++ [27880; 37322]%N ++ runes_of_ascii "
+options {
+    x_y_z = ""packet""
+    packetx = ""`tick`"";
+    rootA = """ ++ [128512]%N ++ runes_of_ascii """;
+}
 
-root packet Pad {
+options {
+    u128 = char[42]
+}
+
+options {
+    u128 = i32;
+    charz = true;
+    string_ = ' ';
+    /// triple
 }")).
-Eval vm_compute in ("<<<M132>>>" ++ check (runes_of_ascii "packet lengthOf
-{ options1 {	calculatedFrom`line1
-line2`	,
-} ,  @tag(
-4294967296 ) match	_x
-as msg_type	{ ""\" ++ [233]%N ++ runes_of_ascii """ // @lengthOf(
-:  o , },
+Eval vm_compute in ("<<<M1871>>>" ++ check (runes_of_ascii "packet	packetx { // trailing space 
+x_y_z
+{
+
+charz ,
+string x// @lengthOf(
+`two words`
+    ,  u8x { // `tick` ""quote"" 'q'
+charz `100% of %d` // packet A { u8 x, }
+,}// " ++ [27880; 37322]%N ++ runes_of_ascii "
+,} , }
+    // a // b
+    packet metadata {  @leftPad ( '0') repeat i32 options1 ,u64 uint8x , }
+")).
+Eval vm_compute in ("<<<M218>>>" ++ check (runes_of_ascii "packet stringy{ @lengthOf(As // trailing space 
+)char[ 4294967296 ]
+// trailing space 
+// " ++ [128512]%N ++ runes_of_ascii " emoji
+o
+    , }
+    root packet f32a{	@rightPad
+( '0'
+) uint16
+    u8x
+@lengthOf(Pad) `a\` , }
+MetaData	Packet
+{i64_  o  ,	uint64 u128 ,
+    As x , u32 f32a
+    ,// 50% %s
+}
+")).
+Eval vm_compute in ("<<<M2130>>>" ++ check (runes_of_ascii "packet// packet A { u8 x, }
+repeatCount	{// packet A { u8 x, }
+@leftPad ( '\x00'
+) repeat u8x MetaDataX `crlf
+line`,
+    repeat
+    char[] MetaDataX
+    ,
+u64 u64	uint8x@calculatedFrom(""a\""b""
+// c
+// packet A { u8 x, }
+) `tab	here`
+,//
+}MetaData pack
+    {
+    }
+")).
+Eval vm_compute in ("<<<M2199>>>" ++ check (runes_of_ascii "packet// packet A { u8 x, }
+repeatCount	{// packet A { u8 x, }
+@leftPad ( '\x00'
+) repeat u8x MetaDataX `crlf
+line`,
+    repeat
+    char[] MetaDataX
+    ,
+u64	uint8x@calculatedFrom(""a\""b""
+// c
+// packet A { u8 x, }
+) `tab	here`
+,//
+}MetaData < pack
+    {
+    }
+")).
+Eval vm_compute in ("<<<M2086>>>" ++ check (runes_of_ascii "packet// packet A { u8 x, }
+repeatCount	{// packet A { u8 x, }
+@leftPad ( '\x00'
+) u8x repeat MetaDataX `crlf
+line`,
+    repeat
+    char[] MetaDataX
+    ,
+u64	uint8x@calculatedFrom(""a\""b""
+// c
+// packet A { u8 x, }
+) `tab	here`
+,//
+}MetaData pack
+    {
+    }
+")).
+Eval vm_compute in ("<<<M2149>>>" ++ check (runes_of_ascii "packet// packet A { u8 x, }
+repeatCount	{// packet A { u8 x, }
+@leftPad ( '\x00'
+) repeat u8x MetaDataX `crlf
+line`,
+    repeat
+    char[] MetaDataX
+    ,
+u64	uint8x@calculatedFrom(""a\""b""
+// c
+// packet A { u8 x, }
+ `tab	here`
+,//
+}MetaData pack
+    {
+    }
+")).
+Eval vm_compute in ("<<<M1444>>>" ++ check (runes_of_ascii "packet calculatedFrom
+{ @calculatedFrom( ""a\\"" ) zchar[ zchar[ 4294967296 ]
+calculatedFrom@lengthOf( pack )	`100% of %d` ,char[]body@calculatedFrom( ""// no comment"" )  ,
+@tag( 007) //x
+int8
+leftPad`it's` , repeat pack
+    { repeat char[ 3] body
+,},
 }")).
-Eval vm_compute in ("<<<M1385>>>" ++ check (runes_of_ascii "packet A {
+Eval vm_compute in ("<<<M1589>>>" ++ check (runes_of_ascii "packet calculatedFrom
+{ @calculatedFrom( ""a\\"" ) zchar[ 4294967296 ]
+calculatedFrom@lengthOf( pack )	`100% of %d` ,char[]body@calculatedFrom( ""// no comment"" )  ,
+@tag( 007) //x
+int8
+leftPad`it's` , repeat pack
+    { repeat char[ 3] body body
+,},
+}")).
+Eval vm_compute in ("<<<M1509>>>" ++ check (runes_of_ascii "packet calculatedFrom
+{ @calculatedFrom( ""a\\"" ) zchar[ 4294967296 ]
+calculatedFrom@lengthOf( pack )	`100% of %d` ,char[]body@calculatedFrom( ""// no comment"" ) )  ,
+@tag( 007) //x
+int8
+leftPad`it's` , repeat pack
+    { repeat char[ 3] body
+,},
+}")).
+Eval vm_compute in ("<<<M1622>>>" ++ check (runes_of_ascii "packet calculatedFrom
+{ @calculatedFrom( ""a\\"" ) zchar[ 4294967296 ]
+calculatedFrom@lengthOf( pack )	`100% of %d` ,char[]body@calculatedFrom( ""// no comment""` )  ,
+@tag( 007) //x
+int8
+leftPad`it's` , repeat pack
+    { repeat char[ 3] body
+,},
+}")).
+Eval vm_compute in ("<<<M1500>>>" ++ check (runes_of_ascii "packet calculatedFrom
+{ @calculatedFrom( ""a\\"" ) zchar[ 4294967296 ]
+calculatedFrom@lengthOf( pack )	`100% of %d` ,char[]body""// no comment"" @calculatedFrom( )  ,
+@tag( 007) //x
+int8
+leftPad`it's` , repeat pack
+    { repeat char[ 3] body
+,},
+}")).
+Eval vm_compute in ("<<<M1513>>>" ++ check (runes_of_ascii "packet calculatedFrom
+{ @calculatedFrom( ""a\\"" ) zchar[ 4294967296 ]
+calculatedFrom@lengthOf( pack )	`100% of %d` ,char[]body@calculatedFrom( ""// no comment"" )  
+@tag( 007) //x
+int8
+leftPad`it's` , repeat pack
+    { repeat char[ 3] body
+,},
+}")).
+Eval vm_compute in ("<<<M3958>>>" ++ check (runes_of_ascii "options {
+    repeatCount = ""// no comment"";
+    _x = u32;
+    zchar = char
+}//x
+
+root packet chars {
+    u16 Pad @lengthOf(rootA) `u8 x,`,
+    int16 u8x @calculatedFrom(""it's""),
+}
+
+MetaData As {
+    char[] x,
+    string A `line1
+    line2`,
+}")).
+Eval vm_compute in ("<<<M4399>>>" ++ check (runes_of_ascii "
+MetaData
+    Packet {
+
+    }  packet  tag
+    {  int16 u 
+// c
+//	t
+	`// not a comment`
+
+,  }root	// a // b
+    packet
+	Logon  {
+metadata 
+
+/// triple
+  	stringy`" ++ [233]%N ++ runes_of_ascii "`
+
+    ,
+    rootA Pad
+,  // c
+len
+@calculatedFrom(  """"  ) 
+, }
+
+")).
+Eval vm_compute in ("<<<M3522>>>" ++ check (runes_of_ascii "
+packet
+
+    Logon
+	{string
+
+    user ,
+    }root 
+packet
+    Frame {
+	u8
+
+K , 
+match 
+K as 
+Body
+
+{ 1
+:
+Logon
+
+    ,  2
+
+    : Logout, } ,
+    Tail ,
+
+    }
+packet Logout
+	{ 
+u16 
+reason, }	packet 
+Tail{
+u32
+crc , 
+}
+")).
+Eval vm_compute in ("<<<M2158>>>" ++ check (runes_of_ascii "packet// packet A { u8 x, }
+repeatCount	{// packet A { u8 x, }
+@leftPad ( '\x00'
+) repeat u8x MetaDataX `crlf
+line`,
+    repeat
+    char[] MetaDataX
+    ,
+u64	uint8x@calculatedFrom(""a\""b""
+// c
+// packet A { u8 x, }
+)")).
+Eval vm_compute in ("<<<M962>>>" ++ check (runes_of_ascii "
+MetaData	zchar{ falsey u8x , // @lengthOf(
+i8
+u128 ,
+u  i8i8 `
+`  , i8 asx `{ , }`
+, }
+options {  lengthOf= i8
+}
+packet
+msg_type
+    { match u8x as	MetaDataX {
+//
+/// triple
+1: tag //	t
+,
+    //
+    } ,
+}")).
+Eval vm_compute in ("<<<M879>>>" ++ check (runes_of_ascii "packet calculatedFrom
+    //	t
+    { @leftPad( '\x00'
+    ) match i8i8	as
+    // " ++ [27880; 37322]%N ++ runes_of_ascii "
+    BodyLength { 255
+    : o, 0 : Header// " ++ [27880; 37322]%N ++ runes_of_ascii "
+, ""CRC32"" :
+asx,7
+    : u[10 ,0 ] : packetx ,
+    0  :
+Foo ,} , }
+")).
+Eval vm_compute in ("<<<M892>>>" ++ check (runes_of_ascii "MetaData
+o { BodyLength
+charz ,
+body // @lengthOf(
+u128 `" ++ [28040; 24687; 31867; 22411]%N ++ runes_of_ascii "`, uint16 Foo `u8 x,` // " ++ [128512]%N ++ runes_of_ascii " emoji
+,
+    f64 //	t
+pack
+``, msg_type
+//	t
+//x
+chars	, }// " ++ [27880; 37322]%N ++ runes_of_ascii "
+options {
+    trueish
+    = char }
+")).
+Eval vm_compute in ("<<<M3528>>>" ++ check (runes_of_ascii "packet u128
+{	u8
+
+a
+
+,
+	} root
+
+packet
+
+Msg { u8
+    k
+,
+	u24{
+u8 Hi
+,
+    u16
+    Lo
+	,
+}
+,
+repeat i24 {  u32
+q
+
+    , }	,
+    u128
+,
+    u16
+float32x
+,string
+
+    s , }
+
+")).
+Eval vm_compute in ("<<<M424>>>" ++ check (runes_of_ascii "
+MetaData  matchKey {//x
+char[]  Packet,
+    _x
+// " ++ [27880; 37322]%N ++ runes_of_ascii "
+// a // b
+x_y_z
+// `tick` ""quote"" 'q'
+//	t
+, string_
+    matchKey `" ++ [233]%N ++ runes_of_ascii "` , } packet len{ Foo { u@lengthOf(a1 )
+    , }
+, }
+")).
+Eval vm_compute in ("<<<M3495>>>" ++ check (runes_of_ascii "
+
+  packet
+
+A {
+    u8
+
+    a, } 
+packet
+    B
+
+{
+
+    u16 
+b
+, }root  packet
+    P
+	{
+u8 
+K 
+, match 
+K as
+    M
+{[
+    1  ,
+2
+]
+	: A
+,
+
+3
+	:
+
+B
+	,  7 : 
+A, } ,}
+")).
+Eval vm_compute in ("<<<M279>>>" ++ check (runes_of_ascii "MetaData
+// " ++ [128512]%N ++ runes_of_ascii " emoji
+// packet A { u8 x, }
+int{
+    // @lengthOf(
+    char[0123456789
+] x_y_z, Header msg_type ,
+//x
+// c
+metadata o `say ""hi""` ,	} options {
+    }
+")).
+Eval vm_compute in ("<<<M2400>>>" ++ check (runes_of_ascii "
+packet MetaDataX
+{
+    @leftPad
+( // a // b
+'0' '0'
+) i8 u @lengthOf(
+MetaDataX
+    ) `say ""hi""` ,	} MetaData BodyLength {
+    asx
+x_y_z `" ++ [233]%N ++ runes_of_ascii "`
+, uint64 u128 , }
+")).
+Eval vm_compute in ("<<<M2372>>>" ++ check (runes_of_ascii "
+packet MetaDataX
+{
+    @leftPad
+( // a // b
+'0'
+) i8 u @lengthOf(
+MetaDataX
+    ) `say ""hi""` ,	} @ MetaData BodyLength {
+    asx
+x_y_z `" ++ [233]%N ++ runes_of_ascii "`
+, uint64 u128 , }
+")).
+Eval vm_compute in ("<<<M2433>>>" ++ check (runes_of_ascii "
+packet MetaDataX
+{
+    @leftPad
+( // a // b
+'0'
+) i8 u `@lengthOf(
+MetaDataX
+    ) `say ""hi""` ,	} MetaData BodyLength {
+    asx
+x_y_z `" ++ [233]%N ++ runes_of_ascii "`
+, uint64 u128 , }
+")).
+Eval vm_compute in ("<<<M4224>>>" ++ check (runes_of_ascii "MetaData a1 {
+    zchar lengthOf `{ , }`,
+    options1 leftPad,
+    char[10] charz `crlf
+    line`,
+}
+
+packet a1 {
+    i64 body @calculatedFrom(""packet""),
+}")).
+Eval vm_compute in ("<<<M2406>>>" ++ check (runes_of_ascii "
+packet MetaDataX
+{
+    @leftPad
+( // a // b
+'0'
+) i8 u @lengthOf(
+MetaDataX
+    ) `say ""hi""` ,	} MetaData BodyLength {
+    asx
+x_y_z """"
+, uint64 u128 , }
+")).
+Eval vm_compute in ("<<<M562>>>" ++ check (runes_of_ascii "
+root packet Header { @rightPad ( '0'
+) u32 Pad @lengthOf(len ) `line1
+line2`, // `tick` ""quote"" 'q'
+}MetaData stringy
+    // packet A { u8 x, }
+    { }
+")).
+Eval vm_compute in ("<<<M1779>>>" ++ check (runes_of_ascii "options { } packet Packet{char[] i64_ ,
+@tag(
+    255) match
+crc as i8i8{""{,}"" : trueish """" : Pad , ""a\\"" :
+Foo ,
+    1 packetx:
+, """ ++ [128512]%N ++ runes_of_ascii """ : trueish , } , }")).
+Eval vm_compute in ("<<<M1777>>>" ++ check (runes_of_ascii "options { } packet Packet{char[] i64_ ,
+@tag(
+    255) match
+crc as i8i8{""{,}"" : trueish """" : Pad , ""a\\"" :
+Foo ,
+    1 packetx
+, """ ++ [128512]%N ++ runes_of_ascii """ : trueish , } , }")).
+Eval vm_compute in ("<<<M4145>>>" ++ check (runes_of_ascii "packet A {
     u8 a,
 }
+
 packet B {
     u16 b,
 }
+
 root packet P {
     u8 K,
     match K as M {
-        1 : A,
-        1 : B,
+        [1, 2] : A,
+        3 : B,
+        7 : A,
     },
-}
-")).
-Eval vm_compute in ("<<<M368>>>" ++ check (runes_of_ascii "MetaData Header
-    {
-    f64 lengthOf,zchar[ 7 ] zchar
-// `tick` ""quote"" 'q'
-// `tick` ""quote"" 'q'
-`doc` ,
-len
-x_y_z
-, } 	 ")).
-Eval vm_compute in ("<<<M1849>>>" ++ check (runes_of_ascii "
+}")).
+Eval vm_compute in ("<<<M1677>>>" ++ check (runes_of_ascii "options { } packet Packet{char[] i64_ ,
+
+    255) match
+crc as i8i8{""{,}"" : trueish """" : Pad , ""a\\"" :
+Foo ,
+    1 :packetx
+, """ ++ [128512]%N ++ runes_of_ascii """ : trueish , } , }")).
+Eval vm_compute in ("<<<M4238>>>" ++ check (runes_of_ascii "
 packet
+	options1
+{
+    @leftPad (
+'\x00'
+	// " ++ [128512]%N ++ runes_of_ascii " emoji
+    // c
+    )
 
-    calculatedFrom {@tag(4294967296
-)  u	msg_type ,char[ 
-3  ]
-
-crc @lengthOf( len )
-`u8 x,` 
+calculatedFrom
 ,
-// c
-    }")).
-Eval vm_compute in ("<<<M1680>>>" ++ check (runes_of_ascii "  packet
 
-A
-	{ u16
-    len @lengthOf(
-    body )`
-` 
-,  u32
-	crc@calculatedFrom( ""CRC32"" )`
-`, string
-body
+    }MetaData
 
-    ,
-}")).
-Eval vm_compute in ("<<<M1754>>>" ++ check (runes_of_ascii "
+    len{ // a // b
+	} 
 
-  packet
-A
-
-    {match k
-as
-
-n { [""a""
-
-    ,
-
-    22,
-
-""c c"" ,
-	4
-	, 
-""e""
-	, 66
-	]
-:	B
-,
-2:
-    C
-}, 
+    // 50% %s")).
+Eval vm_compute in ("<<<M4379>>>" ++ check (runes_of_ascii "packet Header {
+    i16 matchKey,
+    @calculatedFrom(""\n"")
+    charz calculatedFrom `line1
+    line2`,
 }
-")).
-Eval vm_compute in ("<<<M334>>>" ++ check (runes_of_ascii "// @lengthOf(
-options{ } packet pack  {//
-} options
-    {
-    }MetaData msg_type
-{} root packet repeatCount  {}")).
-Eval vm_compute in ("<<<M900>>>" ++ check (runes_of_ascii "packet A {
-  match k as n {
-    [""a"", ""bb"", 007, ""d"", ""e"", 66, ""g"", ""h"", 9, ""j"", ""k""] : B,
-    2 : C
-  },
+
+packet crc {
+    calculatedFrom,
 }")).
-Eval vm_compute in ("<<<M943>>>" ++ check (runes_of_ascii "packet A {
-    Inner {
-        u8 x `a
+Eval vm_compute in ("<<<M4157>>>" ++ check (runes_of_ascii "
+root	packet
+	T{
+string
+zchar	,
 
-b`,
-        Deep {
-            u8 y `a
+zchar[
 
-b`,
-        },
+3 
+]stringy , 	 // 50% %s
+	}
+
+packet rootA {
+	u{
+
+repeatCount
+@lengthOf( 
+o	)
+
+`" ++ [28040; 24687; 31867; 22411]%N ++ runes_of_ascii "`	,
+},
+}")).
+Eval vm_compute in ("<<<M922>>>" ++ check (runes_of_ascii "packet A {
+    repeat Pad ,	} MetaData	_x{ char[ 00
+]
+i8i8,
+//
+/// triple
+}packet i8i8
+    {
+} packet asx { uint8 pack ,}
+/// triple
+")).
+Eval vm_compute in ("<<<M2118>>>" ++ check (runes_of_ascii "packet// packet A { u8 x, }
+repeatCount	{// packet A { u8 x, }
+@leftPad ( '\x00'
+) repeat u8x MetaDataX `crlf
+line`,
+    repeat")).
+Eval vm_compute in ("<<<M3267>>>" ++ check (runes_of_ascii "MetaData metadata {
+// c
+} MetaData rootA { i8 i64_ , roots options1 `a\` , lengthOf Header , Z9_ Foo , int16 BodyLength , }")).
+Eval vm_compute in ("<<<M3299>>>" ++ check (runes_of_ascii "MetaData metadata { } MetaData rootA { i8 i64_ , roots options1 `a\` , lengthOf Header , Z9_ Foo
+// c
+, int16 BodyLength , }")).
+Eval vm_compute in ("<<<M4408>>>" ++ check (runes_of_ascii "  packet len
+{
+
+    }
+root
+	packet
+
+    Foo { }packet matchKey 
+{ char[
+10
+    ]
+	string_ `{ , }`
+,  // " ++ [27880; 37322]%N ++ runes_of_ascii "
+  }
+
+")).
+Eval vm_compute in ("<<<M3092>>>" ++ check (runes_of_ascii "packet A {
+    match k as n {
+        ""x\
+y"" : B,
+        [""x\
+y"", 1] : C,
+        [1,2,3,4,5,""x\
+y""] : D,
     },
 }")).
-Eval vm_compute in ("<<<M1283>>>" ++ check (runes_of_ascii "packet calculatedFrom { @tag( 4294967296 ) u msg_type , char[ 3 ] crc @lengthOf( len ) // c
-`u8 x,` , }")).
-Eval vm_compute in ("<<<M178>>>" ++ check (runes_of_ascii "packet As {
-int16
-A , }packet u	{ @lengthOf( Pad
-)
-    f64
-    metadata	@lengthOf( a1
-)
-    ,
+Eval vm_compute in ("<<<M3355>>>" ++ check (runes_of_ascii "MetaData float { uint8 BodyLength , } MetaData charz { float32 trueish `a\` , i16 metadata `say ""hi""` , }
+// c
+")).
+Eval vm_compute in ("<<<M3338>>>" ++ check (runes_of_ascii "MetaData float { uint8 BodyLength , } MetaData charz { float32 // c
+trueish `a\` , i16 metadata `say ""hi""` , }")).
+Eval vm_compute in ("<<<M1920>>>" ++ check (runes_of_ascii "packet	packetx { // trailing space 
+x_y_z
+{
+string
+charz ,
+string x// @lengthOf(
+`two words`
+    ,  u8x {")).
+Eval vm_compute in ("<<<M985>>>" ++ check (runes_of_ascii "// packet A { u8 x, }
+packet	packetx {
+rootA @calculatedFrom(
+""" ++ [28040; 24687]%N ++ runes_of_ascii """ )	`a\` , @tag(
+    1 ) string o,
 }
 ")).
-Eval vm_compute in ("<<<M1128>>>" ++ check (runes_of_ascii "// c
-packet Logon { @tag( 42 ) @rightPad ( ' ' ) @leftPad ( ) repeat trueish { string T , } , }")).
-Eval vm_compute in ("<<<M1161>>>" ++ check (runes_of_ascii "packet Logon { @tag( 42 ) @rightPad ( ' ' ) @leftPad ( ) repeat trueish {
+Eval vm_compute in ("<<<M166>>>" ++ check (runes_of_ascii "  MetaData
+charz { // " ++ [27880; 37322]%N ++ runes_of_ascii "
+char[ 65535 ] i64_
+,tag msg_type
+`say ""hi""` ,
+// trailing space 
+//	t
+} 	 ")).
+Eval vm_compute in ("<<<M119>>>" ++ check (runes_of_ascii "root packet T { } MetaData msg_type
+{ i64_
+i64_,
+    }
+    /// triple
+    root packet	x_y_z	{ } 	 ")).
+Eval vm_compute in ("<<<M2983>>>" ++ check (runes_of_ascii "packet A {
+  match k as n {
+    [""a"", ""bb"", 007, ""d"", ""e"", 66, ""g"", ""h"", 9] : B
+    2 : C
+  },
+}")).
+Eval vm_compute in ("<<<M3602>>>" ++ check (runes_of_ascii "// @lengthOf(
+options {
+    calculatedFrom = true
+}
+
+options {
+    As = 7;
+}
+
+packet x_y_z {
+}")).
+Eval vm_compute in ("<<<M2977>>>" ++ check (runes_of_ascii "packet A {
+  match k as n {
+    [1, ""bb"", 007, ""d"", 5, ""f"", 7, ""h"", 9] : B
+    2 : C
+  },
+}")).
+Eval vm_compute in ("<<<M1829>>>" ++ check (runes_of_ascii "options { } packet Packet{char[] i64_ ,
+@tag(
+    255) match
+crc as i8i8{""{,}"" : trueis")).
+Eval vm_compute in ("<<<M2242>>>" ++ check (runes_of_ascii "MetaData _x {string x `// not a comment` } string
+i64_ // trailing space 
+`a\` ,
+    }
+")).
+Eval vm_compute in ("<<<M2854>>>" ++ check (runes_of_ascii "@calculatedFrom( f64 float64 @calculatedFrom( false } root } : u32 uint8 [ root uint16")).
+Eval vm_compute in ("<<<M2950>>>" ++ check (runes_of_ascii "packet A {
+  match k as n {
+    [1, ""bb"", 007, ""d"", 5, ""f"", 7] : B,
+    2 : C
+  },
+}")).
+Eval vm_compute in ("<<<M438>>>" ++ check (runes_of_ascii "options{ pack = u64 ; rootA /// triple
+=""packet""// 50% %s
+;As
+    =
+    true
+;
+}
+")).
+Eval vm_compute in ("<<<M3969>>>" ++ check (runes_of_ascii "
+
+  MetaData
+crc
+{
+        /// triple
+    MetaDataX
+    i64_ //
+  ,
+
+    }
+
+")).
+Eval vm_compute in ("<<<M130>>>" ++ check (runes_of_ascii "options
+    {
+BodyLength=
+    // a // b
+    ""\" ++ [233]%N ++ runes_of_ascii """	; rootA= true
+;
+Pad = 1;
+}
+")).
+Eval vm_compute in ("<<<M3371>>>" ++ check (runes_of_ascii "MetaData _x { f64
 // c
-string T , } , }")).
-Eval vm_compute in ("<<<M1751>>>" ++ check (runes_of_ascii "
-MetaData  _x
+charz `tab	here` , } options { BodyLength = """ ++ [233]%N ++ runes_of_ascii "t" ++ [233]%N ++ runes_of_ascii """ ; }")).
+Eval vm_compute in ("<<<M2925>>>" ++ check (runes_of_ascii "packet A {
+  match k as n {
+    [1, ""bb"", 007, ""d"", 5] : B
+    2 : C
+  },
+}")).
+Eval vm_compute in ("<<<M3878>>>" ++ check (runes_of_ascii "  packet	x_y_z
 
 {
-zchar[ 4294967296  ] 
 
-// c
-    	lengthOf `// not a comment`
+string
 
-    , }
+charz  
+  // trailing space 
+
+  // " ++ [27880; 37322]%N ++ runes_of_ascii "
+  , 
+}
 ")).
-Eval vm_compute in ("<<<M856>>>" ++ check (runes_of_ascii "packet A {
+Eval vm_compute in ("<<<M2907>>>" ++ check (runes_of_ascii "packet A {
   match k as n {
-    [1, ""bb"", 007, ""d"", 5, ""f"", 7, ""h""] : B
+    [1, 22, 007, 4] : B,
     2 : C
   },
 }")).
-Eval vm_compute in ("<<<M865>>>" ++ check (runes_of_ascii "packet A {
-  match k as n {
-    [1, 22, 007, 4, 5, 66, 7, 8, 9] : B
-    2 : C
-  },
-}")).
-Eval vm_compute in ("<<<M1212>>>" ++ check (runes_of_ascii "packet o { // c
-@tag( 42 ) repeat x { char[ 0123456789 ] i64_ , } , } options { }")).
-Eval vm_compute in ("<<<M1244>>>" ++ check (runes_of_ascii "packet o { @tag( 42 ) repeat x { char[ 0123456789 ] i64_ , } , } options { // c
-}")).
-Eval vm_compute in ("<<<M663>>>" ++ check (runes_of_ascii "// c
-packet i64_ {	char[] calculatedFrom , } packet
-trueish  {@calculatedFrom(")).
-Eval vm_compute in ("<<<M291>>>" ++ check (runes_of_ascii "options
-    { }
-    packet
-    string_ {@rightPad ( '0'// c
-)
-u16 body , }")).
-Eval vm_compute in ("<<<M807>>>" ++ check (runes_of_ascii "packet A {
-  match k as n {
-    [1, 22, ""c c"", 4] : B,
-    2 : C
-  },
-}")).
-Eval vm_compute in ("<<<M1326>>>" ++ check (runes_of_ascii "MetaData _x { zchar[ 4294967296 ] lengthOf `// not a comment` ,
+Eval vm_compute in ("<<<M3417>>>" ++ check (runes_of_ascii "packet o { @tag( 4294967296 ) options1 @lengthOf(
 // c
-}")).
-Eval vm_compute in ("<<<M322>>>" ++ check (runes_of_ascii "root packet matchKey { } packet msg_type{	char[ 65535]
-falsey ,}
+u8x ) `" ++ [233]%N ++ runes_of_ascii "` , }")).
+Eval vm_compute in ("<<<M1363>>>" ++ check (runes_of_ascii "MetaData Z9_
+    { As A ,len u
+`u8 x,`// @lengthOf(
+,
+u64
+Z9_ , }
 ")).
-Eval vm_compute in ("<<<M947>>>" ++ check (runes_of_ascii "packet A {
-    B b `x
-`,
-    B `x
-`,
-    repeat B bs `x
-`,
-}")).
-Eval vm_compute in ("<<<M1505>>>" ++ check (runes_of_ascii "root packet
-    P
-    {  char
-    c
-    ,
-	u8
-    x ,}
+Eval vm_compute in ("<<<M2945>>>" ++ check (runes_of_ascii "packet A { Inner { match k as n { [1,22,007,4,5,66] : B, }, }, }")).
+Eval vm_compute in ("<<<M1612>>>" ++ check (runes_of_ascii "packet calculatedFrom
+{ @calculatedFrom( ""a\\"" ) zchar[ 4294")).
+Eval vm_compute in ("<<<M3481>>>" ++ check (runes_of_ascii "root packet P {
+    repeat string ss,
+    repeat u16 ns,
+}
 ")).
-Eval vm_compute in ("<<<M342>>>" ++ check (runes_of_ascii "packet o{ char[0123456789 ] asx `doc`
-    ,	}
-")).
-Eval vm_compute in ("<<<M1104>>>" ++ check (runes_of_ascii "MetaData // c
-zchar { zchar[ 3 ] Pad , }")).
-Eval vm_compute in ("<<<M425>>>" ++ check (runes_of_ascii "options
+Eval vm_compute in ("<<<M1106>>>" ++ check (runes_of_ascii "
+MetaData T
 {
-matchKey = 42/// triple
-x=")).
-Eval vm_compute in ("<<<M1885>>>" ++ check (runes_of_ascii "
-root
-	packet  A	{ u8
+zchar[
+0
+//x
+//
+] u,
+int16 float ,} // c")).
+Eval vm_compute in ("<<<M2839>>>" ++ check (runes_of_ascii "match false i8 @tag( repeat false float64 @tag( true =")).
+Eval vm_compute in ("<<<M186>>>" ++ check (runes_of_ascii "options {x_y_z =""" ++ [233]%N ++ runes_of_ascii "t" ++ [233]%N ++ runes_of_ascii """ ; i64_ =i8 falsey = ""CRC32"" }")).
+Eval vm_compute in ("<<<M707>>>" ++ check (runes_of_ascii "MetaData uint8x
+{ }  options{ lengthOf=
+false }
+")).
+Eval vm_compute in ("<<<M2315>>>" ++ check (runes_of_ascii "
+MetaData Pad{
+u32 rootA , `line1
+line2`
+    }
+")).
+Eval vm_compute in ("<<<M172>>>" ++ check (runes_of_ascii "MetaData
+    asx {zchar[
+42
+    ]
+chars	, }
+")).
+Eval vm_compute in ("<<<M4481>>>" ++ check (runes_of_ascii "
+packet A{u8
 
 x
-`
-`,	}
-")).
-Eval vm_compute in ("<<<M987>>>" ++ check (runes_of_ascii "packet A {
- u8 x `d" ++ [160]%N ++ runes_of_ascii "`, // c" ++ [160]%N ++ runes_of_ascii "
-}")).
-Eval vm_compute in ("<<<M946>>>" ++ check (runes_of_ascii "packet A {
-    u8 x `x
-`,
-}")).
-Eval vm_compute in ("<<<M1192>>>" ++ check (runes_of_ascii "options { u8x =
-// c
-3 }")).
-Eval vm_compute in ("<<<M746>>>" ++ check (runes_of_ascii """1"" float64 { packet")).
-Eval vm_compute in ("<<<M1010>>>" ++ check (runes_of_ascii "packet A {
+	`d 	`
+
+    ,	// c 	
 }
-// c" ++ [8232]%N)).
-Eval vm_compute in ("<<<M993>>>" ++ check (runes_of_ascii "packet A {
-}// c" ++ [5760]%N)).
-Eval vm_compute in ("<<<M1919>>>" ++ check (runes_of_ascii "options {  }")).
-Eval vm_compute in ("<<<M1024>>>" ++ check (runes_of_ascii "// c" ++ [8287]%N)).
+
+")).
+Eval vm_compute in ("<<<M2068>>>" ++ check (runes_of_ascii "packet// packet A { u8 x, }
+repeatCount	{")).
+Eval vm_compute in ("<<<M3239>>>" ++ check (runes_of_ascii "MetaData zchar { zchar[ // c
+3 ] Pad , }")).
+Eval vm_compute in ("<<<M3195>>>" ++ check (runes_of_ascii "packet A {    u8 x, // c    u8 y,}")).
+Eval vm_compute in ("<<<M2737>>>" ++ check (runes_of_ascii "|L:aVD< U}`R/=(j'DawDDu<pie}{OR}d~>~")).
+Eval vm_compute in ("<<<M3220>>>" ++ check (runes_of_ascii "root // a
+ packet // b
+ A // c
+ { }")).
+Eval vm_compute in ("<<<M2632>>>" ++ check (runes_of_ascii "packet A { match k n { 1 : B }, }")).
+Eval vm_compute in ("<<<M1272>>>" ++ check (runes_of_ascii "options
+{
+u128 = 007 ;
+    }
+")).
+Eval vm_compute in ("<<<M4280>>>" ++ check (runes_of_ascii "root
+packet
+
+asx
+
+    {  }
+
+")).
+Eval vm_compute in ("<<<M226>>>" ++ check (runes_of_ascii "root
+packet i8i8 {
+} // c")).
+Eval vm_compute in ("<<<M2647>>>" ++ check (runes_of_ascii "packet A { u8 x, @tag(1) }")).
+Eval vm_compute in ("<<<M4507>>>" ++ check (runes_of_ascii "
+
+  root
+
+packet len
+
+{}
+")).
+Eval vm_compute in ("<<<M649>>>" ++ check (runes_of_ascii "MetaData zchar{
+    }
+")).
+Eval vm_compute in ("<<<M1266>>>" ++ check (runes_of_ascii "// trailing space 
+
+")).
+Eval vm_compute in ("<<<M2689>>>" ++ check (runes_of_ascii "options options { }")).
+Eval vm_compute in ("<<<M3140>>>" ++ check (runes_of_ascii "// c" ++ [8232]%N ++ runes_of_ascii "
+packet A {
+}")).
+Eval vm_compute in ("<<<M2587>>>" ++ check (runes_of_ascii "packet A { u8 , }")).
+Eval vm_compute in ("<<<M379>>>" ++ check (runes_of_ascii "options
+    { }
+")).
+Eval vm_compute in ("<<<M182>>>" ++ check (runes_of_ascii "packet asx{ }
+")).
+Eval vm_compute in ("<<<M866>>>" ++ check (runes_of_ascii "
+ // " ++ [128512]%N ++ runes_of_ascii " emoji")).
+Eval vm_compute in ("<<<M2739>>>" ++ check (runes_of_ascii "@tag( char")).
+Eval vm_compute in ("<<<M4201>>>" ++ check (runes_of_ascii "  // c" ++ [11]%N ++ runes_of_ascii "
+")).
+Eval vm_compute in ("<<<M2475>>>" ++ check (runes_of_ascii "option")).
+Eval vm_compute in ("<<<M2694>>>" ++ check (runes_of_ascii "u8 x,")).
+Eval vm_compute in ("<<<M2522>>>" ++ check (runes_of_ascii "//x")).
+Eval vm_compute in ("<<<M2528>>>" ++ check (runes_of_ascii """a\")).
+Eval vm_compute in ("<<<M2539>>>" ++ check (runes_of_ascii "``")).
+Eval vm_compute in ("<<<M2706>>>" ++ check ([65279]%N)).
